@@ -978,12 +978,16 @@ theorem steps_ind (P : St → Prop) (fl : Flags) (hstep : ∀ s, P s → P (s.st
   | zero => intro s h; exact h
   | succ k ih => intro s h; exact ih _ (hstep s h)
 
+/-- the record stored by `submit`. -/
+def newJob (s : St) (ident : Nat) (deps : List Origin) (code : Nat) (marker : Bool) : Job :=
+  { ident := ident, deps := deps.map (fun o => match o with
+      | .job d => { origin := .job (s.eff d) : Dep }
+      | o => { origin := o }), code := code, marker := marker }
+
 /-- `submit`, first half: the record is stored and the registration callback queued. -/
 def submitPre (s : St) (ident : Nat) (deps : List Origin) (code : Nat) (marker : Bool) : St :=
   { s with n := s.n + 1,
-           jobs := upd s.jobs s.n { ident := ident, deps := deps.map (fun o => match o with
-              | .job d => { origin := .job (s.eff d) : Dep }
-              | o => { origin := o }), code := code, marker := marker },
+           jobs := upd s.jobs s.n (newJob s ident deps code marker),
            regResult := none, ready := s.ready ++ [Cb.register s.n] }
 
 /-- `submit`, second half: after the registration ran, the task is created unless another job stands for it. -/
@@ -1005,9 +1009,9 @@ theorem submitPre_inv1 (s : St) (ident : Nat) (deps : List Origin) (code : Nat) 
     have hk0 := hi.2.2.2 (Nat.le_refl _)
     simp only [CtlAt, hk0] at hi
     simp [slN] at hi
-    simp [submitPre, CtlAt, pcKind, slN, plainCb]
+    simp [submitPre, newJob, CtlAt, pcKind, slN, plainCb]
     simp [hi]
-  · simp [submitPre, CtlAt, upd_ne _ _ hin, plainCb] at hi ⊢
+  · simp [submitPre, newJob, CtlAt, upd_ne _ _ hin, plainCb] at hi ⊢
     refine ⟨hi.1, hi.2.1, hi.2.2.1, fun hle => hi.2.2.2 (by omega)⟩
 
 theorem submitPost_inv1 (s2 : St) (j : Nat) (hI : Inv1 s2) (hk : pcKind (s2.jobs j).pc = 0) (hn : j < s2.n) :
@@ -1050,7 +1054,7 @@ theorem apply_inv1 (fl : Flags) (s : St) (ev : Ev) (h : Inv1 s) : Inv1 (s.apply 
     rw [apply_submit]
     have h1 : Inv1 (submitPre s ident deps code marker) ∧ pcKind ((submitPre s ident deps code marker).jobs s.n).pc = 0
         ∧ (submitPre s ident deps code marker).n = s.n + 1 :=
-      ⟨submitPre_inv1 s ident deps code marker h, by simp [submitPre, pcKind], rfl⟩
+      ⟨submitPre_inv1 s ident deps code marker h, by simp [submitPre, newJob, pcKind], rfl⟩
     have h2 := steps_ind (fun s' => Inv1 s' ∧ pcKind (s'.jobs s.n).pc = 0 ∧ s'.n = s.n + 1) fl
       (fun s' hs' => ⟨step_inv1 fl s' hs'.1, by rw [step_kind0 fl s' hs'.1 _ hs'.2.1]; exact hs'.2.1,
         by rw [step_n]; exact hs'.2.2⟩) (s.ready.length + 1) _ h1
@@ -1443,7 +1447,7 @@ theorem step_invA (fl : Flags) (hg : fl.readyGuarded = true) (s : St) (h : InvA 
 
 theorem submitPre_jobs_ne (s : St) (ident : Nat) (deps : List Origin) (code : Nat) (marker : Bool) (i : Nat)
     (h : i ≠ s.n) : (submitPre s ident deps code marker).jobs i = s.jobs i := by
-  simp [submitPre, upd_ne _ _ h]
+  simp [submitPre, newJob, upd_ne _ _ h]
 
 theorem submitPost_jobs_ne (s : St) (j i : Nat) (h : i ≠ j) : (submitPost s j).jobs i = s.jobs i := by
   unfold submitPost; split <;> simp [upd_ne _ _ h]
@@ -1467,7 +1471,7 @@ theorem submitPre_invA (s : St) (ident : Nat) (deps : List Origin) (code : Nat) 
   refine ⟨submitPre_inv1 s ident deps code marker h.ctl, fun i => ?_, fun i hi => ?_⟩
   · by_cases hi : i = s.n
     · subst hi
-      simp only [submitPre, upd_same]
+      simp only [submitPre, newJob, upd_same]
       unfold JLocal
       simp [pcEnd, pcEarly, pcRun]
     · rw [submitPre_jobs_ne _ _ _ _ _ _ hi]; exact h.loc i
@@ -1508,8 +1512,8 @@ theorem apply_invA (fl : Flags) (hg : fl.readyGuarded = true) (s : St) (ev : Ev)
   | submit ident deps code marker =>
     rw [apply_submit]
     have h1 := steps_invA fl hg s.n (s.ready.length + 1) _
-      ⟨submitPre_invA s ident deps code marker h, by simp [submitPre]⟩
-    exact submitPost_invA _ s.n h1.1 h1.2 (by rw [steps_n]; simp [submitPre])
+      ⟨submitPre_invA s ident deps code marker h, by simp [submitPre, newJob]⟩
+    exact submitPost_invA _ s.n h1.1 h1.2 (by rw [steps_n]; simp [submitPre, newJob])
 
 theorem init_invA (totals : List Nat) : InvA (St.init totals) :=
   ⟨init_inv1 totals, fun i => by simp [St.init, JLocal, pcEnd, pcEarly, pcRun], fun i _ => rfl⟩
@@ -1995,7 +1999,7 @@ theorem submitPre_phaseA (s : St) (ident : Nat) (deps : List Origin) (code : Nat
   have e2 : (submitPre s ident deps code marker).unfinished = s.unfinished := rfl
   rw [e1, e2, sumTo_succ, sumTo_congr _ (fun i => act (s.jobs i)) s.n
     (fun i hi => by rw [submitPre_jobs_ne _ _ _ _ _ _ (by omega)])]
-  have : act ((submitPre s ident deps code marker).jobs s.n) = 0 := by simp [submitPre, act, pcKind]
+  have : act ((submitPre s ident deps code marker).jobs s.n) = 0 := by simp [submitPre, newJob, act, pcKind]
   rw [this, hc]; simp
 
 theorem submitPost_invB (s2 : St) (j : Nat) (hpc : (s2.jobs j).pc = .none) (hn : j < s2.n) (h : PhB s2) :
@@ -2044,8 +2048,8 @@ theorem apply_invB (fl : Flags) (hg : fl.readyGuarded = true) (hf : fl.resubmitR
     rw [apply_submit]
     have h0 := submitPre_invA s ident deps code marker hA
     have hB := steps_phaseB fl hg hf s.n _ _ h0 (submitPre_phaseA s ident deps code marker h)
-    have h1 := steps_invA fl hg s.n (s.ready.length + 1) _ ⟨h0, by simp [submitPre]⟩
-    exact submitPost_invB _ s.n h1.2 (by rw [steps_n]; simp [submitPre]) hB
+    have h1 := steps_invA fl hg s.n (s.ready.length + 1) _ ⟨h0, by simp [submitPre, newJob]⟩
+    exact submitPost_invB _ s.n h1.2 (by rw [steps_n]; simp [submitPre, newJob]) hB
 
 theorem init_invB (totals : List Nat) : InvB (St.init totals) :=
   ⟨rfl, by simp [CountC, actN, sumTo, St.init]⟩
@@ -2099,7 +2103,7 @@ theorem micro_count {fl : Flags} (hg : fl.readyGuarded = true) (hf : fl.resubmit
     have hB := reachable_invB hg hf hr
     have h0 := submitPre_invA s0 ident deps code marker hA
     have hP := submitPre_phaseA s0 ident deps code marker hB
-    refine ⟨(steps_invA fl hg s0.n k _ ⟨h0, by simp [submitPre]⟩).1, ?_⟩
+    refine ⟨(steps_invA fl hg s0.n k _ ⟨h0, by simp [submitPre, newJob]⟩).1, ?_⟩
     by_cases hk' : k ≤ s0.ready.length
     · obtain ⟨_, _, _, _, _, _, _, hc⟩ := (steps_phaseA fl hg s0.n k _ _ h0 hP hk').2
       exact ⟨0, Int.le_refl _, hc⟩
@@ -2164,7 +2168,7 @@ theorem apply_n_le (fl : Flags) (s : St) (ev : Ev) : s.n ≤ (s.apply fl ev).n :
   | wait => exact Nat.le_refl _
   | deliver k => simp only [St.apply]; split <;> exact Nat.le_refl _
   | submit ident deps code marker =>
-    rw [apply_submit, submitPost_n, steps_n]; simp [submitPre]
+    rw [apply_submit, submitPost_n, steps_n]; simp [submitPre, newJob]
 
 
 
@@ -2262,6 +2266,1632 @@ def runEvs (fl : Flags) (totals : List Nat) (evs : List Ev) : St := evs.foldl (S
 theorem reachable_runEvs {fl : Flags} {totals : List Nat} (evs : List Ev)
     (h : runOK fl (St.init totals) evs = true) : Reachable fl totals (runEvs fl totals evs) :=
   reachable_foldl evs _ .init h
+
+
+
+/-! ## third layer: dependency statuses, the counter `unsat`, failed dependencies -/
+
+/-- number of dependencies whose recorded status is not OK. -/
+def cntBad : List Dep → Int
+  | [] => 0
+  | dp :: l => (if dp.cur = .ok then 0 else 1) + cntBad l
+
+theorem cntBad_set (l : List Dep) (d : Nat) (hd : d < l.length) (st : DS) :
+    cntBad (l.set d { (l.getD d default) with cur := st }) = cntBad l - (val st - val (l.getD d default).cur) := by
+  induction l generalizing d with
+  | nil => simp at hd
+  | cons a l ih =>
+    cases d with
+    | zero =>
+      simp only [List.set_cons_zero, cntBad, List.getD_cons_zero]
+      cases st <;> cases a.cur <;> simp [val] <;> omega
+    | succ d =>
+      simp only [List.set_cons_succ, cntBad, List.getD_cons_succ]
+      rw [ih d (by simpa using hd)]; omega
+
+theorem cntBad_nonneg (l : List Dep) : 0 ≤ cntBad l := by
+  induction l with
+  | nil => simp [cntBad]
+  | cons a l ih => simp only [cntBad]; split <;> omega
+
+theorem cntBad_zero (l : List Dep) (h : cntBad l = 0) : ∀ i, i < l.length → (l.getD i default).cur = .ok := by
+  induction l with
+  | nil => intro i hi; simp at hi
+  | cons a l ih =>
+    have := cntBad_nonneg l
+    simp only [cntBad] at h
+    intro i hi
+    cases i with
+    | zero => simp only [List.getD_cons_zero]; split at h <;> first | assumption | omega
+    | succ i =>
+      simp only [List.getD_cons_succ]
+      exact ih (by split at h <;> omega) i (by simpa using hi)
+
+theorem cntBad_pos (l : List Dep) (h : 0 < cntBad l) : ∃ i, i < l.length ∧ (l.getD i default).cur ≠ .ok := by
+  induction l with
+  | nil => simp [cntBad] at h
+  | cons a l ih =>
+    simp only [cntBad] at h
+    by_cases ha : a.cur = .ok
+    · simp only [ha, if_true] at h
+      obtain ⟨i, hi, hc⟩ := ih (by omega)
+      exact ⟨i + 1, by simpa using hi, by simpa using hc⟩
+    · exact ⟨0, by simp, by simpa using ha⟩
+
+theorem cntBad_all_wait (l : List Dep) (h : ∀ i, i < l.length → (l.getD i default).cur = .wait) :
+    cntBad l = l.length := by
+  induction l with
+  | nil => rfl
+  | cons a l ih =>
+    have h0 := h 0 (by simp)
+    simp only [List.getD_cons_zero] at h0
+    simp only [cntBad, h0, List.length_cons]
+    rw [ih (fun i hi => by simpa using h (i + 1) (by simpa using hi))]
+    simp; omega
+
+theorem getD_set_dep (l : List Dep) (d i : Nat) (v : Dep) :
+    (l.set d v).getD i default = if i = d ∧ d < l.length then v else l.getD i default := by
+  simp only [List.getD_eq_getElem?_getD, List.getElem?_set]
+  by_cases h : d = i
+  · subst h
+    by_cases hd : d < l.length <;> simp [hd]
+  · have : ¬ i = d := fun e => h e.symm
+    simp [h, this]
+
+def isJobO : Origin → Bool
+  | .job _ => true
+  | .tok _ _ => false
+
+/-- the `i`-th dependency of a record. -/
+def depAt (jb : Job) (i : Nat) : Dep := jb.deps.getD i default
+
+/-- record-level part of the third layer. -/
+structure JDeep (jb : Job) : Prop where
+  /-- DONE is only ever shown by a job in its final segments -/
+  doneEnd : jb.state = .done → pcEnd jb.pc = true
+  /-- the record state while the start / the process is in progress -/
+  lockReady : jb.pc = .lockEnter ∨ jb.pc = .lockExitAbort → jb.state = .ready
+  runRunning : pcRun jb.pc = true → jb.state = .running
+  /-- before the coroutine's first segment nothing has happened to the record -/
+  fresh : jb.state = .unscheduled → (jb.pc = .none ∨ jb.pc = .created)
+  pristine : jb.state = .unscheduled → jb.failedDep = false ∧ jb.unsat = 0 ∧ ∀ i, i < jb.deps.length → (depAt jb i).cur = .wait
+  /-- invariant A: the counter of unsatisfied dependencies -/
+  counter : jb.state ≠ .unscheduled → jb.unsat = cntBad jb.deps
+  /-- a READY / RUNNING job has all its job dependencies OK -/
+  readyDeps : jb.state = .ready ∨ jb.state = .running → ∀ i, i < jb.deps.length → isJobO (depAt jb i).origin = true → (depAt jb i).cur = .ok
+  /-- token dependencies never fail -/
+  tokNoFail : ∀ i, i < jb.deps.length → isJobO (depAt jb i).origin = false → (depAt jb i).cur ≠ .fail
+  /-- `failedDep` is witnessed by a failed dependency -/
+  failedWit : jb.failedDep = true → ∃ i, i < jb.deps.length ∧ (depAt jb i).cur = .fail
+  /-- a job with a failed dependency was never launched -/
+  failedNoLaunch : jb.failedDep = true → jb.launches = 0
+
+/-- the status `st` computed for the `d`-th dependency is consistent with what the record already knows. -/
+structure StatusOK (jb : Job) (d : Nat) (st : DS) : Prop where
+  inRange : d < jb.deps.length
+  okStays : isJobO (depAt jb d).origin = true → (depAt jb d).cur = .ok → st = .ok
+  failStays : (depAt jb d).cur = .fail → st = .fail
+  tokNoFail : isJobO (depAt jb d).origin = false → st ≠ .fail
+
+/-- how `dependencychanged` rewrites the dependency list and the counter. -/
+theorem depChanged_deps (fl : Flags) (jb : Job) (d : Nat) (st : DS) :
+    (st = (depAt jb d).cur ∧ depChanged fl jb d st = (jb, false)) ∨
+    (st ≠ (depAt jb d).cur ∧
+      (depChanged fl jb d st).1.deps = jb.deps.set d { (depAt jb d) with cur := st } ∧
+      (depChanged fl jb d st).1.unsat = jb.unsat - (val st - val (depAt jb d).cur)) := by
+  have e := fun jb => eventSet_frame jb
+  unfold depChanged depAt
+  simp only
+  split
+  · rename_i h; exact Or.inl ⟨h, rfl⟩
+  · rename_i h
+    refine Or.inr ⟨h, ?_, ?_⟩
+    · split <;> split <;> simp [e]
+    · split <;> split <;> simp [e]
+
+
+
+theorem pc_classes (pc : PC) : pcEarly pc = true ∨ pcRun pc = true ∨ pcEnd pc = true := by
+  cases pc <;> simp [pcEarly, pcRun, pcEnd]
+
+/-- with a consistent status, a READY / RUNNING record never sees a failing dependency. -/
+theorem statusOK_not_fail {jb : Job} {d : Nat} {st : DS} (h : JDeep jb) (hs : StatusOK jb d st)
+    (hr : jb.state = .ready ∨ jb.state = .running) : st ≠ .fail := by
+  cases hj : isJobO (depAt jb d).origin
+  · exact hs.tokNoFail hj
+  · have := hs.okStays hj (h.readyDeps hr d hs.inRange hj)
+    rw [this]; simp
+
+theorem depChanged_jdeep (fl : Flags) (hg : fl.readyGuarded = true) (jb : Job) (d : Nat) (st : DS)
+    (hL : JLocal jb) (h : JDeep jb) (hst : jb.state ≠ .unscheduled) (hs : StatusOK jb d st) :
+    JDeep (depChanged fl jb d st).1 := by
+  rcases depChanged_deps fl jb d st with ⟨_, e⟩ | ⟨hne, hdeps, hunsat⟩
+  · rw [e]; exact h
+  · have f := depChanged_state fl jb d st
+    generalize (depChanged fl jb d st).1 = r at f hdeps hunsat
+    obtain ⟨f1, f2, f3, f4, _, f5⟩ := f
+    simp only [hg, true_implies] at f5
+    have hlen : r.deps.length = jb.deps.length := by rw [hdeps]; simp
+    have hdep : ∀ i, depAt r i = if i = d then { (depAt jb d) with cur := st } else depAt jb i := by
+      intro i
+      unfold depAt
+      rw [hdeps, getD_set_dep]
+      by_cases hi : i = d <;> simp [hi, hs.inRange, depAt]
+    have horig : ∀ i, (depAt r i).origin = (depAt jb i).origin := by
+      intro i; rw [hdep]; split
+      · rename_i hi; subst hi; rfl
+      · rfl
+    have hcur : ∀ i, i ≠ d → (depAt r i).cur = (depAt jb i).cur := by
+      intro i hi; rw [hdep]; simp [hi]
+    have hcurd : (depAt r d).cur = st := by rw [hdep]; simp
+    have hcnt : r.unsat = cntBad r.deps := by
+      rw [hunsat, hdeps, h.counter hst]
+      exact (cntBad_set jb.deps d hs.inRange st).symm
+    -- the dependency `d` is not an OK job dependency, nor a failed one
+    have hd_notokjob : isJobO (depAt jb d).origin = true → (depAt jb d).cur ≠ .ok :=
+      fun hj hc => hne ((hs.okStays hj hc).trans hc.symm)
+    have hd_notfail : (depAt jb d).cur ≠ .fail := fun hc => hne ((hs.failStays hc).trans hc.symm)
+    have htok : ∀ i, i < r.deps.length → isJobO (depAt r i).origin = false → (depAt r i).cur ≠ .fail := by
+      intro i hi hj
+      rw [hlen] at hi; rw [horig] at hj
+      by_cases hid : i = d
+      · subst hid; rw [hcurd]; exact hs.tokNoFail hj
+      · rw [hcur i hid]; exact h.tokNoFail i hi hj
+    have hwit : jb.failedDep = true → ∃ i, i < r.deps.length ∧ (depAt r i).cur = .fail := by
+      intro hf
+      obtain ⟨i, hi, hc⟩ := h.failedWit hf
+      have hid : i ≠ d := fun e => hd_notfail (e ▸ hc)
+      exact ⟨i, by rw [hlen]; exact hi, by rw [hcur i hid]; exact hc⟩
+    have hfresh : r.state ≠ .unscheduled → (r.state = .unscheduled → (r.pc = .none ∨ r.pc = .created)) :=
+      fun hr hx => absurd hx hr
+    rcases f5 with ⟨a, b⟩ | ⟨a, afail, b, c⟩ | ⟨a, aun, b, c⟩
+    · -- state and failedDep unchanged
+      refine { doneEnd := ?_, lockReady := ?_, runRunning := ?_, fresh := ?_, pristine := ?_, counter := ?_,
+               readyDeps := ?_, tokNoFail := htok, failedWit := ?_, failedNoLaunch := ?_ }
+      · rw [a, f1]; exact h.doneEnd
+      · rw [a, f1]; exact h.lockReady
+      · rw [a, f1]; exact h.runRunning
+      · rw [a, f1]; exact h.fresh
+      · intro hu; rw [a] at hu; exact absurd hu hst
+      · intro _; exact hcnt
+      · intro hr i hi hj
+        rw [a] at hr; rw [hlen] at hi; rw [horig] at hj
+        by_cases hid : i = d
+        · subst hid; exact absurd (h.readyDeps hr i hi hj) (hd_notokjob hj)
+        · rw [hcur i hid]; exact h.readyDeps hr i hi hj
+      · intro hf; rw [b] at hf; exact hwit hf
+      · intro hf; rw [b] at hf; rw [f2]; exact h.failedNoLaunch hf
+    · -- the dependency failed: the record goes to ERROR
+      have hnr : ¬ (jb.state = .ready ∨ jb.state = .running) := fun hr => statusOK_not_fail h hs hr afail
+      have hre : r.state ≠ .unscheduled := by rw [b]; intro hx; cases hx
+      refine { doneEnd := ?_, lockReady := ?_, runRunning := ?_, fresh := hfresh hre, pristine := ?_, counter := ?_,
+               readyDeps := ?_, tokNoFail := htok, failedWit := ?_, failedNoLaunch := ?_ }
+      · rw [b]; intro hx; cases hx
+      · intro hp; rw [f1] at hp; exact absurd (Or.inl (h.lockReady hp)) hnr
+      · intro hp; rw [f1] at hp; exact absurd (Or.inr (h.runRunning hp)) hnr
+      · intro hu; exact absurd hu hre
+      · intro _; exact hcnt
+      · rw [b]; intro hx; rcases hx with hx | hx <;> cases hx
+      · intro _; exact ⟨d, by rw [hlen]; exact hs.inRange, by rw [hcurd]; exact afail⟩
+      · intro _
+        rw [f2]
+        rcases pc_classes jb.pc with hp | hp | hp
+        · exact hL.2.2.1 hp
+        · exact absurd (Or.inr (h.runRunning hp)) hnr
+        · have := hL.1 hp; rw [a] at this; cases this
+    · -- all dependencies satisfied: the WAITING record goes to READY
+      have c1 := b
+      have c2 := c
+      have hallok := cntBad_zero r.deps (by rw [← hcnt]; exact aun)
+      have hre : r.state ≠ .unscheduled := by rw [a]; intro hx; cases hx
+      refine { doneEnd := ?_, lockReady := ?_, runRunning := ?_, fresh := hfresh hre, pristine := ?_, counter := ?_,
+               readyDeps := ?_, tokNoFail := htok, failedWit := ?_, failedNoLaunch := ?_ }
+      · rw [a]; intro hx; cases hx
+      · intro _; exact a
+      · intro hp; rw [f1] at hp; have := h.runRunning hp; rw [c1] at this; cases this
+      · intro hu; exact absurd hu hre
+      · intro _; exact hcnt
+      · intro _ i hi _; exact hallok i hi
+      · intro hf; rw [c2] at hf; exact hwit hf
+      · intro hf; rw [c2] at hf; rw [f2]; exact h.failedNoLaunch hf
+
+
+
+/-! ### static well-formedness: dependency graph, `eff`, registry -/
+
+theorem sameConst_origin {jb jb' : Job} (h : SameConst jb jb') :
+    jb'.deps.length = jb.deps.length ∧ ∀ i, (depAt jb' i).origin = (depAt jb i).origin := by
+  have hm := h.2.2.2
+  have hl : jb'.deps.length = jb.deps.length := by
+    have := congrArg List.length hm
+    simpa using this
+  refine ⟨hl, fun i => ?_⟩
+  unfold depAt
+  by_cases hi : i < jb.deps.length
+  · have h1 : (jb'.deps.map (·.origin))[i]? = (jb.deps.map (·.origin))[i]? := by rw [hm]
+    simp only [List.getElem?_map] at h1
+    simp only [List.getD_eq_getElem?_getD]
+    rw [List.getElem?_eq_getElem (by omega)] at h1 ⊢
+    rw [List.getElem?_eq_getElem hi] at h1 ⊢
+    simpa using h1
+  · simp only [List.getD_eq_getElem?_getD]
+    rw [List.getElem?_eq_none (by omega), List.getElem?_eq_none (by omega)]
+
+structure InvS (s : St) : Prop where
+  blankDeps : ∀ j, s.n ≤ j → (s.jobs j).deps = []
+  acyclic : ∀ j i o, i < (s.jobs j).deps.length → (depAt (s.jobs j) i).origin = .job o → o < j
+  tokOK : ∀ j i t c, i < (s.jobs j).deps.length → (depAt (s.jobs j) i).origin = .tok t c → t < s.ntok ∧ 0 < c
+  effLe : ∀ d, s.eff d ≤ d
+  regLt : ∀ p, p ∈ s.registry → p.2 < s.n
+  resLt : ∀ o, s.regResult = some (some o) → o < s.n
+  regCb : ∀ j, Cb.register j ∈ s.ready → j < s.n
+
+theorem lookup_mem (k : Nat) (l : List (Nat × Nat)) (o : Nat) (h : lookup k l = some o) : (k, o) ∈ l := by
+  induction l with
+  | nil => simp [lookup] at h
+  | cons p l ih =>
+    obtain ⟨a, b⟩ := p
+    simp only [lookup] at h
+    split at h
+    · rename_i hk; simp at h; subst hk; subst h; exact List.mem_cons_self ..
+    · exact List.mem_cons_of_mem _ (ih h)
+
+/-- queue growth and registration data for every callback that is not a registration. -/
+theorem runCb_queue (fl : Flags) (s : St) (cb : Cb) (hreg : isReg cb = false) :
+    (s.runCb fl cb).regResult = s.regResult ∧ (s.runCb fl cb).registry = s.registry ∧
+    ∃ new, (s.runCb fl cb).ready = s.ready ++ new ∧ nReg new = 0 := by
+  by_cases hd : ∀ x, cb = .resume x → (s.jobs x).pc ≠ .doneHandler
+  · have hQ := runCb_frameQ fl s cb hreg hd
+    exact ⟨hQ.2.1, hQ.2.2.1, hQ.2.2.2⟩
+  · have : ∃ x, cb = .resume x ∧ (s.jobs x).pc = .doneHandler := by
+      apply Classical.byContradiction
+      intro hne
+      apply hd
+      intro x hx hp
+      exact hne ⟨x, hx, hp⟩
+    obtain ⟨x, rfl, hp⟩ := this
+    simp only [St.runCb]
+    rw [resume_doneHandler fl s x hp]
+    exact doneStep_frameQ' s x
+
+theorem nReg_zero_mem {l : List Cb} (h : nReg l = 0) (j : Nat) : Cb.register j ∉ l := by
+  intro hm
+  simp only [nReg, List.countP_eq_zero] at h
+  have := h _ hm
+  simp [isReg] at this
+
+theorem frame_static {s s' : St} {x : Nat} (hF : Frame s s' x) (h : InvS s)
+    (hreg : s'.registry = s.registry) (hres : s'.regResult = s.regResult)
+    (hcb : ∀ j, Cb.register j ∈ s'.ready → j < s.n) : InvS s' := by
+  obtain ⟨fn, fe, ft, _, fj, fc⟩ := hF
+  have hc := sameConst_origin fc
+  have hdeps : ∀ j, (s'.jobs j).deps.length = (s.jobs j).deps.length ∧
+      ∀ i, (depAt (s'.jobs j) i).origin = (depAt (s.jobs j) i).origin := by
+    intro j
+    by_cases hj : j = x
+    · subst hj; exact hc
+    · rw [fj j hj]; exact ⟨rfl, fun _ => rfl⟩
+  refine ⟨?_, ?_, ?_, by rw [fe]; exact h.effLe, by rw [hreg, fn]; exact h.regLt, by rw [hres, fn]; exact h.resLt,
+    by rw [fn]; exact hcb⟩
+  · intro j hj
+    rw [fn] at hj
+    have := (hdeps j).1
+    rw [h.blankDeps j hj] at this
+    exact List.eq_nil_of_length_eq_zero this
+  · intro j i o hi ho
+    rw [(hdeps j).1] at hi; rw [(hdeps j).2] at ho
+    exact h.acyclic j i o hi ho
+  · intro j i t c hi ho
+    rw [(hdeps j).1] at hi; rw [(hdeps j).2] at ho; rw [ft]
+    exact h.tokOK j i t c hi ho
+
+theorem step_invS (fl : Flags) (s : St) (h : InvS s) : InvS (s.step fl) := by
+  unfold St.step
+  split
+  · exact h
+  · rename_i cb rest hr
+    have hmem : ∀ j, Cb.register j ∈ rest → j < s.n := fun j hj => h.regCb j (by rw [hr]; exact List.mem_cons_of_mem _ hj)
+    have hF := runCb_frame fl ({ s with ready := rest } : St) cb
+    by_cases hreg : isReg cb = true
+    · cases cb with
+      | register j =>
+        have hj : j < s.n := h.regCb j (by rw [hr]; exact List.mem_cons_self ..)
+        have f := register_jobs fl ({ s with ready := rest } : St) j
+        have h0 : InvS ({ s with ready := rest } : St) :=
+          ⟨h.blankDeps, h.acyclic, h.tokOK, h.effLe, h.regLt, h.resLt, hmem⟩
+        obtain ⟨fn, fe, ft, _, fj, fc⟩ := hF
+        have hjobs : (St.runCb fl ({ s with ready := rest } : St) (.register j)).jobs = s.jobs := f.1
+        refine ⟨by rw [hjobs, fn]; exact h.blankDeps, by rw [hjobs]; exact h.acyclic,
+          by rw [hjobs, ft]; exact h.tokOK, by rw [fe]; exact h.effLe, ?_, ?_, ?_⟩
+        · rw [fn]
+          intro p hp
+          simp only [St.runCb, St.register] at hp
+          split at hp
+          · split at hp
+            · split at hp
+              · simp only [List.mem_cons] at hp
+                rcases hp with hp | hp
+                · rw [hp]; exact hj
+                · exact h.regLt p hp
+              · exact h.regLt p hp
+            · exact h.regLt p hp
+          · simp only [List.mem_cons] at hp
+            rcases hp with hp | hp
+            · rw [hp]; exact hj
+            · exact h.regLt p hp
+        · rw [fn]
+          intro o ho
+          simp only [St.runCb, St.register] at ho
+          split at ho
+          · rename_i o' hl
+            split at ho
+            · simp at ho
+            · simp at ho
+              subst ho
+              exact h.regLt _ (lookup_mem _ _ _ hl)
+          · simp at ho
+        · rw [fn]
+          intro j' hj'
+          have : (St.runCb fl ({ s with ready := rest } : St) (.register j)).ready = rest := f.2.1
+          rw [this] at hj'
+          exact hmem j' hj'
+      | _ => simp [isReg] at hreg
+    · have hreg' : isReg cb = false := by cases h : isReg cb <;> simp_all
+      obtain ⟨q1, q2, new, q3, q4⟩ := runCb_queue fl ({ s with ready := rest } : St) cb hreg'
+      refine frame_static hF ⟨h.blankDeps, h.acyclic, h.tokOK, h.effLe, h.regLt, h.resLt, hmem⟩ q2 q1 ?_
+      intro j hj
+      rw [q3] at hj
+      simp only [List.mem_append] at hj
+      rcases hj with hj | hj
+      · exact hmem j hj
+      · exact absurd hj (nReg_zero_mem q4 j)
+
+
+
+theorem steps_invS (fl : Flags) (k : Nat) (s : St) (h : InvS s) : InvS (St.steps fl s k) :=
+  steps_ind InvS fl (fun s' h' => step_invS fl s' h') k s h
+
+theorem depAt_map (deps : List Origin) (f : Origin → Dep) (i : Nat) (hi : i < deps.length) :
+    depAt { ident := 0, deps := deps.map f } i = f (deps[i]'hi) := by
+  simp [depAt, List.getD_eq_getElem?_getD, hi]
+
+theorem submitPre_invS (s : St) (ident : Nat) (deps : List Origin) (code : Nat) (marker : Bool)
+    (hok : EvOK s (.submit ident deps code marker)) (h : InvS s) : InvS (submitPre s ident deps code marker) := by
+  have hnew : ∀ i (hi : i < deps.length),
+      (depAt ((submitPre s ident deps code marker).jobs s.n) i).origin =
+        (match deps[i]'hi with | .job d => .job (s.eff d) | o => o) := by
+    intro i hi
+    simp only [submitPre, newJob, upd_same, depAt, List.getD_eq_getElem?_getD]
+    rw [List.getElem?_eq_getElem (by simpa using hi)]
+    simp only [List.getElem_map, Option.getD_some]
+    split <;> simp_all
+  have hlen : ((submitPre s ident deps code marker).jobs s.n).deps.length = deps.length := by
+    simp [submitPre, newJob]
+  refine ⟨?_, ?_, ?_, h.effLe, ?_, ?_, ?_⟩
+  · intro j hj
+    have hj' : s.n + 1 ≤ j := hj
+    rw [submitPre_jobs_ne _ _ _ _ _ _ (by omega)]
+    exact h.blankDeps j (by omega)
+  · intro j i o hi ho
+    by_cases hj : j = s.n
+    · subst hj
+      rw [hlen] at hi
+      rw [hnew i hi] at ho
+      have hm := hok _ (List.getElem_mem hi)
+      split at ho
+      · rename_i d hd
+        rw [hd] at hm
+        simp only [Origin.job.injEq] at ho
+        subst ho
+        have := h.effLe d
+        simp only at hm
+        omega
+      · rename_i hnj
+        cases hdi : deps[i] with
+        | job d => exact absurd hdi (hnj d)
+        | tok t c => rw [hdi] at ho; cases ho
+    · rw [submitPre_jobs_ne _ _ _ _ _ _ hj] at hi ho
+      exact h.acyclic j i o hi ho
+  · intro j i t c hi ho
+    by_cases hj : j = s.n
+    · subst hj
+      rw [hlen] at hi
+      rw [hnew i hi] at ho
+      have hm := hok _ (List.getElem_mem hi)
+      split at ho
+      · cases ho
+      · rw [ho] at hm; exact hm
+    · rw [submitPre_jobs_ne _ _ _ _ _ _ hj] at hi ho
+      exact h.tokOK j i t c hi ho
+  · intro p hp
+    have := h.regLt p hp
+    show p.2 < s.n + 1
+    omega
+  · intro o ho; simp [submitPre, newJob] at ho
+  · intro j hj
+    show j < s.n + 1
+    simp only [submitPre, newJob, List.mem_append, List.mem_singleton, Cb.register.injEq] at hj
+    rcases hj with hj | hj
+    · have := h.regCb j hj; omega
+    · omega
+
+theorem submitPost_invS (s : St) (j : Nat) (hj : s.n = j + 1) (h : InvS s) : InvS (submitPost s j) := by
+  unfold submitPost
+  split
+  · rename_i o ho
+    have := h.resLt o ho
+    refine ⟨h.blankDeps, h.acyclic, h.tokOK, ?_, h.regLt, h.resLt, h.regCb⟩
+    intro d
+    simp only [upd]
+    split
+    · rename_i hd; subst hd; omega
+    · exact h.effLe d
+  · refine ⟨?_, ?_, ?_, ?_, h.regLt, h.resLt, ?_⟩
+    · intro i hi
+      simp only [put_n] at hi
+      simp only [put_jobs]
+      rw [upd_ne _ _ (by omega)]
+      exact h.blankDeps i hi
+    · intro i k o hk ho
+      simp only [put_jobs] at hk ho
+      by_cases hi : i = j
+      · subst hi
+        simp only [upd_same] at hk ho
+        exact h.acyclic i k o hk ho
+      · rw [upd_ne _ _ hi] at hk ho
+        exact h.acyclic i k o hk ho
+    · intro i k t c hk ho
+      simp only [put_jobs] at hk ho
+      by_cases hi : i = j
+      · subst hi
+        simp only [upd_same] at hk ho
+        exact h.tokOK i k t c hk ho
+      · rw [upd_ne _ _ hi] at hk ho
+        exact h.tokOK i k t c hk ho
+    · intro d
+      simp only [put_eff, upd]
+      split
+      · rename_i hd; subst hd; exact Nat.le_refl _
+      · exact h.effLe d
+    · intro i hi
+      simp only [put_ready, List.mem_append, List.mem_singleton] at hi
+      rcases hi with hi | hi
+      · exact h.regCb i hi
+      · cases hi
+
+theorem apply_invS (fl : Flags) (s : St) (ev : Ev) (hok : EvOK s ev) (h : InvS s) : InvS (s.apply fl ev) := by
+  cases ev with
+  | step => exact step_invS fl s h
+  | wait =>
+    refine ⟨h.blankDeps, h.acyclic, h.tokOK, h.effLe, h.regLt, h.resLt, ?_⟩
+    intro j hj
+    simp only [St.apply, List.mem_append, List.mem_singleton] at hj
+    rcases hj with hj | hj
+    · exact h.regCb j hj
+    · cases hj
+  | deliver k =>
+    simp only [St.apply]
+    split
+    · refine ⟨h.blankDeps, h.acyclic, h.tokOK, h.effLe, h.regLt, h.resLt, ?_⟩
+      intro j hj
+      simp only [List.mem_append, List.mem_singleton] at hj
+      rcases hj with hj | hj
+      · exact h.regCb j hj
+      · cases hj
+    · exact h
+  | submit ident deps code marker =>
+    rw [apply_submit]
+    refine submitPost_invS _ s.n (by rw [steps_n]; simp [submitPre, newJob]) ?_
+    exact steps_invS fl _ _ (submitPre_invS s ident deps code marker hok h)
+
+theorem init_invS (totals : List Nat) : InvS (St.init totals) :=
+  ⟨fun _ _ => rfl, fun j i o hi _ => by simp [St.init] at hi, fun j i t c hi _ => by simp [St.init] at hi,
+   fun d => Nat.le_refl _, fun p hp => by simp [St.init] at hp, fun o ho => by simp [St.init] at ho,
+   fun j hj => by simp [St.init] at hj⟩
+
+theorem reachable_invS {fl : Flags} {totals : List Nat} {s : St} (h : Reachable fl totals s) : InvS s := by
+  induction h with
+  | init => exact init_invS totals
+  | next _ hok ih => exact apply_invS fl _ _ hok ih
+
+
+
+/-! ### third layer, state level -/
+
+/-- the first segment of the coroutine has begun. -/
+def Started (s : St) (j : Nat) : Prop := (s.jobs j).state ≠ .unscheduled
+
+/-- `(j, d)` names a dependency of a started job. -/
+def DepOK (s : St) (j d : Nat) : Prop := Started s j ∧ d < (s.jobs j).deps.length
+
+/-- pending checks and registered dependents refer to dependencies of started jobs, under the right origin. -/
+structure InvK (s : St) : Prop where
+  cbOK : ∀ j d, (Cb.check j d ∈ s.ready ∨ Cb.notifyCheck j d ∈ s.ready) → DepOK s j d
+  jobDepsOK : ∀ o p, p ∈ s.jobDeps o → DepOK s p.1 p.2 ∧ (depAt (s.jobs p.1) p.2).origin = .job o
+  tokDepsOK : ∀ t p, p ∈ s.tokDeps t → DepOK s p.1 p.2 ∧ ∃ c, (depAt (s.jobs p.1) p.2).origin = .tok t c
+
+/-- a recorded OK / FAIL of a job dependency is the truth about its origin. -/
+def XInv (s : St) : Prop :=
+  ∀ j i o, i < (s.jobs j).deps.length → (depAt (s.jobs j) i).origin = .job o →
+    ((depAt (s.jobs j) i).cur = .ok → (s.jobs o).state = .done) ∧
+    ((depAt (s.jobs j) i).cur = .fail → (s.jobs o).state = .error)
+
+/-- nobody has seen a final state of job `x` yet. -/
+def NoDeps (s : St) (x : Nat) : Prop :=
+  ∀ j i, i < (s.jobs j).deps.length → (depAt (s.jobs j) i).origin = .job x → (depAt (s.jobs j) i).cur = .wait
+
+def JD (s : St) : Prop := ∀ j, JDeep (s.jobs j)
+
+structure InvD (s : St) : Prop where
+  recs : JD s
+  truth : XInv s
+  wf : InvK s
+
+theorem status_job_ok (s : St) (o : Nat) : s.status (.job o) = .ok ↔ (s.jobs o).state = .done := by
+  simp only [St.status]; cases (s.jobs o).state <;> simp
+theorem status_job_fail (s : St) (o : Nat) : s.status (.job o) = .fail ↔ (s.jobs o).state = .error := by
+  simp only [St.status]; cases (s.jobs o).state <;> simp
+theorem status_tok_nofail (s : St) (t c : Nat) : s.status (.tok t c) ≠ .fail := by
+  simp only [St.status]; split <;> simp
+
+theorem isJobO_job {o : Origin} (h : isJobO o = true) : ∃ k, o = .job k := by
+  cases o <;> simp [isJobO] at h ⊢
+theorem isJobO_tok {o : Origin} (h : isJobO o = false) : ∃ t c, o = .tok t c := by
+  cases o <;> simp [isJobO] at h ⊢
+
+theorem statusOK_of_X {s : St} {j d : Nat} (hJ : JDeep (s.jobs j)) (hX : XInv s) (hd : d < (s.jobs j).deps.length) :
+    StatusOK (s.jobs j) d (s.status (depAt (s.jobs j) d).origin) := by
+  refine ⟨hd, ?_, ?_, ?_⟩
+  · intro hj hc
+    obtain ⟨o, ho⟩ := isJobO_job hj
+    rw [ho, status_job_ok]
+    exact (hX j d o hd ho).1 hc
+  · intro hc
+    cases hj : isJobO (depAt (s.jobs j) d).origin
+    · exact absurd hc (hJ.tokNoFail d hd hj)
+    · obtain ⟨o, ho⟩ := isJobO_job hj
+      rw [ho, status_job_fail]
+      exact (hX j d o hd ho).2 hc
+  · intro hj
+    obtain ⟨t, c, ho⟩ := isJobO_tok hj
+    rw [ho]; exact status_tok_nofail s t c
+
+/-- how `dependencychanged` rewrites the dependency list, seen through `depAt`. -/
+theorem depChanged_depAt (fl : Flags) (jb : Job) (d : Nat) (st : DS) (hd : d < jb.deps.length) :
+    (depChanged fl jb d st).1.deps.length = jb.deps.length ∧
+    (∀ i, (depAt (depChanged fl jb d st).1 i).origin = (depAt jb i).origin) ∧
+    (∀ i, i ≠ d → (depAt (depChanged fl jb d st).1 i).cur = (depAt jb i).cur) ∧
+    (depAt (depChanged fl jb d st).1 d).cur = st := by
+  rcases depChanged_deps fl jb d st with ⟨e1, e2⟩ | ⟨_, hdeps, _⟩
+  · rw [e2]; exact ⟨rfl, fun _ => rfl, fun _ _ => rfl, e1.symm⟩
+  · have hdep : ∀ i, depAt (depChanged fl jb d st).1 i
+        = if i = d then { (depAt jb d) with cur := st } else depAt jb i := by
+      intro i
+      unfold depAt
+      rw [hdeps, getD_set_dep]
+      by_cases hi : i = d <;> simp [hi, hd, depAt]
+    refine ⟨by rw [hdeps]; simp, fun i => ?_, fun i hi => by rw [hdep]; simp [hi], by rw [hdep]; simp⟩
+    rw [hdep]; split
+    · rename_i hi; subst hi; rfl
+    · rfl
+
+theorem depChanged_mono (fl : Flags) (hg : fl.readyGuarded = true) (jb : Job) (d : Nat) (st : DS) :
+    (jb.state ≠ .unscheduled → (depChanged fl jb d st).1.state ≠ .unscheduled) ∧
+    (jb.state = .done → (depChanged fl jb d st).1.state = .done) ∧
+    (jb.state = .error → (depChanged fl jb d st).1.state = .error) := by
+  have f := (depChanged_state fl jb d st).2.2.2.2.2
+  simp only [hg, true_implies] at f
+  rcases f with ⟨a, _⟩ | ⟨a, _, b, _⟩ | ⟨a, _, b, _⟩
+  · rw [a]; exact ⟨id, id, id⟩
+  · rw [b]
+    refine ⟨fun _ h => (by cases h), fun h => ?_, fun _ => rfl⟩
+    rw [h] at a; cases a
+  · rw [a]
+    refine ⟨fun _ h => (by cases h), fun h => ?_, fun h => ?_⟩ <;> rw [h] at b <;> cases b
+
+theorem check_invD (fl : Flags) (hg : fl.readyGuarded = true) (s : St) (j d : Nat)
+    (hL : JLocal (s.jobs j)) (h : InvD s) (hok : DepOK s j d) : InvD (s.check fl j d) := by
+  have hst := statusOK_of_X (h.recs j) h.truth hok.2
+  have hA := depChanged_depAt fl (s.jobs j) d (s.status (depAt (s.jobs j) d).origin) hok.2
+  have hM := depChanged_mono fl hg (s.jobs j) d (s.status (depAt (s.jobs j) d).origin)
+  have hJ := depChanged_jdeep fl hg (s.jobs j) d _ hL (h.recs j) hok.1 hst
+  have ej : (s.check fl j d).jobs j = (depChanged fl (s.jobs j) d (s.status (depAt (s.jobs j) d).origin)).1 :=
+    check_job fl s j d
+  have ene : ∀ i, i ≠ j → (s.check fl j d).jobs i = s.jobs i := fun i hi => check_job_ne fl s j d i hi
+  -- facts about every record after the check
+  have hlen : ∀ i, ((s.check fl j d).jobs i).deps.length = (s.jobs i).deps.length := by
+    intro i; by_cases hi : i = j
+    · subst hi; rw [ej]; exact hA.1
+    · rw [ene i hi]
+  have horig : ∀ i k, (depAt ((s.check fl j d).jobs i) k).origin = (depAt (s.jobs i) k).origin := by
+    intro i k; by_cases hi : i = j
+    · subst hi; rw [ej]; exact hA.2.1 k
+    · rw [ene i hi]
+  have hstart : ∀ i, Started s i → Started (s.check fl j d) i := by
+    intro i hi; unfold Started; by_cases hij : i = j
+    · subst hij; rw [ej]; exact hM.1 hi
+    · rw [ene i hij]; exact hi
+  have hdone : ∀ o, (s.jobs o).state = .done → ((s.check fl j d).jobs o).state = .done := by
+    intro o ho; by_cases hoj : o = j
+    · subst hoj; rw [ej]; exact hM.2.1 ho
+    · rw [ene o hoj]; exact ho
+  have herr : ∀ o, (s.jobs o).state = .error → ((s.check fl j d).jobs o).state = .error := by
+    intro o ho; by_cases hoj : o = j
+    · subst hoj; rw [ej]; exact hM.2.2 ho
+    · rw [ene o hoj]; exact ho
+  have hdepok : ∀ i k, DepOK s i k → DepOK (s.check fl j d) i k :=
+    fun i k hik => ⟨hstart i hik.1, by rw [hlen]; exact hik.2⟩
+  refine ⟨?_, ?_, ?_⟩
+  · intro i; by_cases hi : i = j
+    · subst hi; rw [ej]; exact hJ
+    · rw [ene i hi]; exact h.recs i
+  · intro j' i o hi ho
+    rw [hlen] at hi; rw [horig] at ho
+    by_cases hj' : j' = j
+    · subst hj'
+      by_cases hid : i = d
+      · subst hid
+        rw [ej, hA.2.2.2, ho]
+        exact ⟨fun hc => hdone o ((status_job_ok s o).1 hc), fun hc => herr o ((status_job_fail s o).1 hc)⟩
+      · rw [ej, hA.2.2.1 i hid]
+        have := h.truth j' i o hi ho
+        exact ⟨fun hc => hdone o (this.1 hc), fun hc => herr o (this.2 hc)⟩
+    · rw [ene j' hj']
+      have := h.truth j' i o hi ho
+      exact ⟨fun hc => hdone o (this.1 hc), fun hc => herr o (this.2 hc)⟩
+  · have hr : ∀ cb, cb ∈ (s.check fl j d).ready → cb ∈ s.ready ∨ cb = .wake j := by
+      intro cb hcb
+      unfold St.check at hcb
+      simp only [put_ready, List.mem_append] at hcb
+      rcases hcb with hcb | hcb
+      · exact Or.inl hcb
+      · split at hcb <;> simp at hcb
+        exact Or.inr hcb
+    refine ⟨?_, ?_, ?_⟩
+    · intro j' d' hm
+      apply hdepok
+      apply h.wf.cbOK
+      rcases hm with hm | hm
+      · rcases hr _ hm with hm | hm
+        · exact Or.inl hm
+        · cases hm
+      · rcases hr _ hm with hm | hm
+        · exact Or.inr hm
+        · cases hm
+    · intro o p hp
+      have : (s.check fl j d).jobDeps = s.jobDeps := by unfold St.check; rfl
+      rw [this] at hp
+      have := h.wf.jobDepsOK o p hp
+      exact ⟨hdepok _ _ this.1, by rw [horig]; exact this.2⟩
+    · intro t p hp
+      have : (s.check fl j d).tokDeps = s.tokDeps := by unfold St.check; rfl
+      rw [this] at hp
+      have := h.wf.tokDepsOK t p hp
+      exact ⟨hdepok _ _ this.1, by rw [horig]; exact this.2⟩
+
+theorem check_noDeps (fl : Flags) (s : St) (j d x : Nat) (hd : d < (s.jobs j).deps.length)
+    (hne : (depAt (s.jobs j) d).origin ≠ .job x) (h : NoDeps s x) : NoDeps (s.check fl j d) x := by
+  have hA := depChanged_depAt fl (s.jobs j) d (s.status (depAt (s.jobs j) d).origin) hd
+  intro j' i hi ho
+  by_cases hj' : j' = j
+  · subst hj'
+    have ej : (s.check fl j' d).jobs j' = (depChanged fl (s.jobs j') d (s.status (depAt (s.jobs j') d).origin)).1 :=
+      check_job fl s j' d
+    rw [ej] at hi ho ⊢
+    rw [hA.1] at hi; rw [hA.2.1] at ho
+    by_cases hid : i = d
+    · subst hid; exact absurd ho hne
+    · rw [hA.2.2.1 i hid]; exact h j' i hi ho
+  · rw [check_job_ne _ _ _ _ _ hj'] at hi ho ⊢
+    exact h j' i hi ho
+
+
+
+/-- a callback that is not a dependency check. -/
+def notChk : Cb → Prop
+  | .check _ _ | .notifyCheck _ _ => False
+  | _ => True
+
+/-- the third layer reads only `jobs`, `ready`, `jobDeps`, `tokDeps`; the queue may grow by well-formed checks. -/
+theorem invD_grow {s s' : St} (new : List Cb) (hj : s'.jobs = s.jobs) (hr : s'.ready = s.ready ++ new)
+    (hjd : s'.jobDeps = s.jobDeps) (htd : s'.tokDeps = s.tokDeps)
+    (hnew : ∀ j d, (Cb.check j d ∈ new ∨ Cb.notifyCheck j d ∈ new) → DepOK s j d) (h : InvD s) : InvD s' := by
+  refine ⟨by intro j; rw [hj]; exact h.recs j, by unfold XInv; rw [hj]; exact h.truth, ?_, ?_, ?_⟩
+  · intro j d hm
+    unfold DepOK Started; rw [hj]
+    rw [hr] at hm
+    simp only [List.mem_append] at hm
+    rcases hm with (hm | hm) | (hm | hm)
+    · exact h.wf.cbOK j d (Or.inl hm)
+    · exact hnew j d (Or.inl hm)
+    · exact h.wf.cbOK j d (Or.inr hm)
+    · exact hnew j d (Or.inr hm)
+  · intro o p hp; unfold DepOK Started; rw [hj]; rw [hjd] at hp; exact h.wf.jobDepsOK o p hp
+  · intro t p hp; unfold DepOK Started; rw [hj]; rw [htd] at hp; exact h.wf.tokDepsOK t p hp
+
+theorem invD_same {s s' : St} (hj : s'.jobs = s.jobs) (hr : s'.ready = s.ready)
+    (hjd : s'.jobDeps = s.jobDeps) (htd : s'.tokDeps = s.tokDeps) (h : InvD s) : InvD s' :=
+  invD_grow [] hj (by rw [hr, List.append_nil]) hjd htd (by intro j d hm; simp at hm) h
+
+theorem noDeps_same {s s' : St} {x : Nat} (hj : s'.jobs = s.jobs) (h : NoDeps s x) : NoDeps s' x := by
+  unfold NoDeps; rw [hj]; exact h
+
+/-- job `x` rewrites its own record: dependency list untouched, a final state is kept (or nobody looked yet). -/
+theorem put_invD (s : St) (x : Nat) (jb : Job) (cbs : List Cb) (ths : List (TK × Nat)) (h : InvD s)
+    (hJ : JDeep jb) (hdeps : jb.deps = (s.jobs x).deps) (hstart : Started s x → jb.state ≠ .unscheduled)
+    (hmono : ((s.jobs x).state = .done → jb.state = .done) ∧ ((s.jobs x).state = .error → jb.state = .error) ∨ NoDeps s x)
+    (hcbs : ∀ cb ∈ cbs, notChk cb) : InvD (s.put x jb cbs ths) := by
+  have hdepAt : ∀ i k, depAt ((s.put x jb cbs ths).jobs i) k = depAt (s.jobs i) k := by
+    intro i k
+    by_cases hi : i = x
+    · subst hi; simp [depAt, hdeps]
+    · simp [upd_ne _ _ hi]
+  have hlen : ∀ i, ((s.put x jb cbs ths).jobs i).deps.length = (s.jobs i).deps.length := by
+    intro i
+    by_cases hi : i = x
+    · subst hi; simp [hdeps]
+    · simp [upd_ne _ _ hi]
+  have hdepok : ∀ i k, DepOK s i k → DepOK (s.put x jb cbs ths) i k := by
+    intro i k hik
+    refine ⟨?_, by rw [hlen]; exact hik.2⟩
+    unfold Started
+    by_cases hi : i = x
+    · subst hi; simp only [put_jobs, upd_same]; exact hstart hik.1
+    · simp only [put_jobs, upd_ne _ _ hi]; exact hik.1
+  refine ⟨?_, ?_, ?_, ?_, ?_⟩
+  · intro i
+    by_cases hi : i = x
+    · subst hi; simp only [put_jobs, upd_same]; exact hJ
+    · simp only [put_jobs, upd_ne _ _ hi]; exact h.recs i
+  · intro j i o hi ho
+    rw [hlen] at hi; rw [hdepAt] at ho ⊢
+    have hX := h.truth j i o hi ho
+    by_cases hox : o = x
+    · subst hox
+      simp only [put_jobs, upd_same]
+      rcases hmono with hm | hm
+      · exact ⟨fun hc => hm.1 (hX.1 hc), fun hc => hm.2 (hX.2 hc)⟩
+      · have := hm j i hi ho
+        rw [this]; exact ⟨fun hc => (by cases hc), fun hc => (by cases hc)⟩
+    · simp only [put_jobs, upd_ne _ _ hox]; exact hX
+  · intro j d hm
+    apply hdepok
+    apply h.wf.cbOK
+    simp only [put_ready, List.mem_append] at hm
+    rcases hm with (hm | hm) | (hm | hm)
+    · exact Or.inl hm
+    · exact absurd (hcbs _ hm) (by simp [notChk])
+    · exact Or.inr hm
+    · exact absurd (hcbs _ hm) (by simp [notChk])
+  · intro o p hp
+    have := h.wf.jobDepsOK o p hp
+    exact ⟨hdepok _ _ this.1, by rw [hdepAt]; exact this.2⟩
+  · intro t p hp
+    have := h.wf.tokDepsOK t p hp
+    exact ⟨hdepok _ _ this.1, by rw [hdepAt]; exact this.2⟩
+
+theorem put_noDeps (s : St) (x y : Nat) (jb : Job) (cbs : List Cb) (ths : List (TK × Nat))
+    (hdeps : jb.deps = (s.jobs x).deps) (h : NoDeps s y) : NoDeps (s.put x jb cbs ths) y := by
+  intro j i hi ho
+  by_cases hj : j = x
+  · subst hj
+    simp only [put_jobs, upd_same, depAt, hdeps] at hi ho ⊢
+    exact h j i hi ho
+  · simp only [put_jobs, upd_ne _ _ hj] at hi ho ⊢
+    exact h j i hi ho
+
+theorem regOne_invD (s : St) (j d : Nat) (hok : DepOK s j d) (h : InvD s) : InvD (regOne s j d) := by
+  have hjobs : (regOne s j d).jobs = s.jobs := (regOne_frame s j d).1
+  have hready : (regOne s j d).ready = s.ready := (regOne_frame s j d).2.1
+  refine ⟨by intro i; rw [hjobs]; exact h.recs i, by unfold XInv; rw [hjobs]; exact h.truth, ?_, ?_, ?_⟩
+  · intro i k hm; unfold DepOK Started; rw [hjobs]; rw [hready] at hm; exact h.wf.cbOK i k hm
+  · intro o p hp
+    unfold DepOK Started; rw [hjobs]
+    unfold regOne at hp
+    split at hp
+    · rename_i o' ho'
+      simp only [upd] at hp
+      split at hp
+      · rename_i hoo; subst hoo
+        simp only [List.mem_append, List.mem_singleton] at hp
+        rcases hp with hp | hp
+        · exact h.wf.jobDepsOK o p hp
+        · subst hp; exact ⟨hok, ho'⟩
+      · exact h.wf.jobDepsOK o p hp
+    · exact h.wf.jobDepsOK o p hp
+  · intro t p hp
+    unfold DepOK Started; rw [hjobs]
+    unfold regOne at hp
+    split at hp
+    · exact h.wf.tokDepsOK t p hp
+    · rename_i t' c' ho'
+      simp only [upd] at hp
+      split at hp
+      · rename_i htt; subst htt
+        simp only [List.mem_append, List.mem_singleton] at hp
+        rcases hp with hp | hp
+        · exact h.wf.tokDepsOK t p hp
+        · subst hp; exact ⟨hok, c', ho'⟩
+      · exact h.wf.tokDepsOK t p hp
+
+theorem relOne_invD (s : St) (j d : Nat) (h : InvD s) : InvD (relOne s j d) := by
+  unfold relOne
+  split
+  · exact h
+  · rename_i t c _
+    refine invD_grow (s := s) ((s.tokDeps t).map (fun (p : Nat × Nat) => Cb.notifyCheck p.1 p.2)) rfl rfl rfl rfl ?_ h
+    intro j' d' hm
+    simp only [List.mem_map] at hm
+    rcases hm with ⟨p, _, hp⟩ | ⟨p, hp, e⟩
+    · cases hp
+    · simp only [Cb.notifyCheck.injEq] at e
+      have := (h.wf.tokDepsOK t p hp).1
+      rw [e.1, e.2] at this; exact this
+
+theorem jdeep_held {jb : Job} (hl : List Nat) (h : JDeep jb) : JDeep { jb with held := hl } :=
+  ⟨h.doneEnd, h.lockReady, h.runRunning, h.fresh, h.pristine, h.counter, h.readyDeps, h.tokNoFail, h.failedWit,
+   h.failedNoLaunch⟩
+
+theorem acqOne_invD (s : St) (x d : Nat) (h : InvD s) : InvD (acqOne s x d) := by
+  unfold acqOne
+  split
+  · exact put_invD s x _ _ _ h (jdeep_held _ (h.recs x)) rfl id (Or.inl ⟨id, id⟩) (by simp)
+  · refine put_invD _ x _ _ _ (invD_same (s := s) rfl rfl rfl rfl h) (jdeep_held _ (h.recs x)) rfl id (Or.inl ⟨id, id⟩) (by simp)
+
+
+
+/-! ### shapes: the net effect of the straight-line tails on the state -/
+
+/-- `s'` is `s` with job `x` replaced by `jb` and `cbs` appended, as far as the third layer can see. -/
+structure Shape (s s' : St) (x : Nat) (jb : Job) (cbs : List Cb) : Prop where
+  jobs : s'.jobs = upd s.jobs x jb
+  ready : s'.ready = s.ready ++ cbs
+  jobDeps : s'.jobDeps = s.jobDeps
+  tokDeps : s'.tokDeps = s.tokDeps
+
+theorem Shape.put (s : St) (x : Nat) (jb : Job) (cbs : List Cb) (ths : List (TK × Nat)) :
+    Shape s (s.put x jb cbs ths) x jb cbs := ⟨rfl, rfl, rfl, rfl⟩
+
+/-- a shape after a shape on the same job. -/
+theorem Shape.trans {a b c : St} {x : Nat} {jb1 jb2 : Job} {c1 c2 : List Cb} (h1 : Shape a b x jb1 c1)
+    (h2 : Shape b c x jb2 c2) : Shape a c x jb2 (c1 ++ c2) := by
+  refine ⟨?_, by rw [h2.ready, h1.ready, List.append_assoc], h2.jobDeps.trans h1.jobDeps, h2.tokDeps.trans h1.tokDeps⟩
+  rw [h2.jobs, h1.jobs]
+  funext i
+  simp only [upd]
+  split <;> rfl
+
+theorem shape_invD {s s' : St} {x : Nat} {jb : Job} {cbs : List Cb} (hs : Shape s s' x jb cbs) (h : InvD s)
+    (hJ : JDeep jb) (hdeps : jb.deps = (s.jobs x).deps) (hstart : Started s x → jb.state ≠ .unscheduled)
+    (hmono : ((s.jobs x).state = .done → jb.state = .done) ∧ ((s.jobs x).state = .error → jb.state = .error) ∨ NoDeps s x)
+    (hcbs : ∀ cb ∈ cbs, notChk cb) : InvD s' :=
+  invD_same (s := s.put x jb cbs []) hs.jobs hs.ready hs.jobDeps hs.tokDeps
+    (put_invD s x jb cbs [] h hJ hdeps hstart hmono hcbs)
+
+theorem finish_shape (s : St) (x : Nat) : Shape s (s.finish x) x { (s.jobs x) with pc := .doneHandler } [] := by
+  unfold St.finish
+  simp only
+  split <;> exact ⟨rfl, by simp, rfl, rfl⟩
+
+theorem loopHead_shape (s : St) (x : Nat) : Shape s (s.loopHead x) x (loopHeadJ (s.jobs x)) [] := by
+  unfold St.loopHead loopHeadJ
+  simp only
+  split
+  · exact finish_shape s x
+  · split
+    · split <;> exact ⟨rfl, by simp, rfl, rfl⟩
+    · exact ⟨rfl, by simp, rfl, rfl⟩
+
+/-- a put on `x` followed by `loopHead`. -/
+theorem put_loopHead_shape (s : St) (x : Nat) (jb : Job) (cbs : List Cb) (ths : List (TK × Nat)) :
+    Shape s ((s.put x jb cbs ths).loopHead x) x (loopHeadJ jb) cbs := by
+  have := (Shape.put s x jb cbs ths).trans (loopHead_shape (s.put x jb cbs ths) x)
+  simpa using this
+
+/-! ### record-level steps -/
+
+/-- a record update that keeps the dependency bookkeeping. -/
+theorem jdeep_step {jb jb' : Job} (h : JDeep jb) (hst : jb.state ≠ .unscheduled)
+    (hdeps : jb'.deps = jb.deps) (hunsat : jb'.unsat = jb.unsat) (hfd : jb'.failedDep = jb.failedDep)
+    (hl : jb'.launches = jb.launches ∨ jb.failedDep = false)
+    (hst' : jb'.state ≠ .unscheduled)
+    (h1 : jb'.state = .done → pcEnd jb'.pc = true)
+    (h2 : jb'.pc = .lockEnter ∨ jb'.pc = .lockExitAbort → jb'.state = .ready)
+    (h3 : pcRun jb'.pc = true → jb'.state = .running)
+    (h4 : jb'.state = .ready ∨ jb'.state = .running → (jb.state = .ready ∨ jb.state = .running) ∨ jb'.unsat = 0) :
+    JDeep jb' := by
+  have hdep : ∀ i, depAt jb' i = depAt jb i := fun i => by simp [depAt, hdeps]
+  refine ⟨h1, h2, h3, fun hx => absurd hx hst', fun hx => absurd hx hst', ?_, ?_, ?_, ?_, ?_⟩
+  · intro _; rw [hunsat, hdeps]; exact h.counter hst
+  · intro hr i hi hj
+    rw [hdeps] at hi; rw [hdep] at hj ⊢
+    rcases h4 hr with hr' | hz
+    · exact h.readyDeps hr' i hi hj
+    · have := h.counter hst
+      rw [hunsat] at hz
+      exact cntBad_zero jb.deps (by rw [← this]; exact hz) i hi
+  · intro i hi hj; rw [hdeps] at hi; rw [hdep] at hj ⊢; exact h.tokNoFail i hi hj
+  · intro hf; rw [hfd] at hf
+    obtain ⟨i, hi, hc⟩ := h.failedWit hf
+    exact ⟨i, by rw [hdeps]; exact hi, by rw [hdep]; exact hc⟩
+  · intro hf; rw [hfd] at hf
+    rcases hl with hl | hl
+    · rw [hl]; exact h.failedNoLaunch hf
+    · rw [hl] at hf; cases hf
+
+theorem eventSet_jdeep {jb : Job} (h : JDeep jb) : JDeep (eventSet jb).1 := by
+  have e := eventSet_frame jb
+  obtain ⟨e1, e2, e3, _, _, _, e7, _, e9, e10, _⟩ := e
+  have hdep : ∀ i, depAt (eventSet jb).1 i = depAt jb i := fun i => by simp [depAt, e9]
+  refine ⟨by rw [e1, e2]; exact h.doneEnd, by rw [e1, e2]; exact h.lockReady, by rw [e1, e2]; exact h.runRunning,
+    by rw [e1, e2]; exact h.fresh, ?_, by rw [e2, e9, e10]; exact h.counter, ?_, ?_, ?_,
+    by rw [e7, e3]; exact h.failedNoLaunch⟩
+  · rw [e2, e7, e10, e9]; intro hx; have := h.pristine hx
+    exact ⟨this.1, this.2.1, fun i hi => by rw [hdep]; exact this.2.2 i hi⟩
+  · rw [e2, e9]; intro hr i hi hj; rw [hdep] at hj ⊢; exact h.readyDeps hr i hi hj
+  · rw [e9]; intro i hi hj; rw [hdep] at hj ⊢; exact h.tokNoFail i hi hj
+  · rw [e7, e9]; intro hf; obtain ⟨i, hi, hc⟩ := h.failedWit hf; exact ⟨i, hi, by rw [hdep]; exact hc⟩
+
+theorem loopHeadJ_frame (jb : Job) :
+    (loopHeadJ jb).deps = jb.deps ∧ (loopHeadJ jb).unsat = jb.unsat ∧ (loopHeadJ jb).failedDep = jb.failedDep ∧
+    (loopHeadJ jb).launches = jb.launches ∧ (loopHeadJ jb).state = jb.state ∧
+    ((loopHeadJ jb).pc = .doneHandler ∧ jb.state.finished = true ∨
+     (loopHeadJ jb).pc = .lockEnter ∧ jb.state = .ready ∨
+     (loopHeadJ jb).pc = .evtWait ∧ jb.state.finished = false) := by
+  unfold loopHeadJ
+  split
+  · rename_i h; simp [h]
+  · rename_i h
+    split
+    · split
+      · rename_i h2; simp [h2]
+      · simp; simpa using h
+    · simp; simpa using h
+
+/-- `loopHead` applied to a record `jbw` that differs from a good record `jb` only in state / event / pc. -/
+theorem loopHeadJ_jdeep {jb jbw : Job} (h : JDeep jb) (hst : jb.state ≠ .unscheduled)
+    (hdeps : jbw.deps = jb.deps) (hunsat : jbw.unsat = jb.unsat) (hfd : jbw.failedDep = jb.failedDep)
+    (hl : jbw.launches = jb.launches) (hst' : jbw.state ≠ .unscheduled)
+    (h4 : jbw.state = .ready ∨ jbw.state = .running → (jb.state = .ready ∨ jb.state = .running) ∨ jbw.unsat = 0) :
+    JDeep (loopHeadJ jbw) := by
+  obtain ⟨f1, f2, f3, f4, f5, f6⟩ := loopHeadJ_frame jbw
+  refine jdeep_step h hst (f1.trans hdeps) (f2.trans hunsat) (f3.trans hfd) (Or.inl (f4.trans hl))
+    (by rw [f5]; exact hst') ?_ ?_ ?_ (by rw [f5, f2]; exact h4)
+  · intro hd
+    rcases f6 with ⟨p, _⟩ | ⟨_, r⟩ | ⟨_, r⟩
+    · rw [p]; rfl
+    · rw [f5, r] at hd; cases hd
+    · rw [f5] at hd; rw [hd] at r; cases r
+  · intro hp
+    rcases f6 with ⟨p, _⟩ | ⟨_, r⟩ | ⟨p, _⟩
+    · rw [p] at hp; rcases hp with hp | hp <;> cases hp
+    · rw [f5]; exact r
+    · rw [p] at hp; rcases hp with hp | hp <;> cases hp
+  · intro hp
+    rcases f6 with ⟨p, _⟩ | ⟨p, _⟩ | ⟨p, _⟩ <;> rw [p] at hp <;> cases hp
+
+/-- a READY / RUNNING record has no failed dependency. -/
+theorem jdeep_ready_nofail {jb : Job} (h : JDeep jb) (hr : jb.state = .ready ∨ jb.state = .running) :
+    jb.failedDep = false := by
+  cases hf : jb.failedDep
+  · rfl
+  · obtain ⟨i, hi, hc⟩ := h.failedWit hf
+    cases hj : isJobO (depAt jb i).origin
+    · exact absurd hc (h.tokNoFail i hi hj)
+    · have := h.readyDeps hr i hi hj
+      rw [this] at hc; cases hc
+
+/-- the first assignment of the coroutine, dependencies present. -/
+theorem jdeep_start {jb : Job} (h : JDeep jb) (hu : jb.state = .unscheduled) :
+    JDeep { jb with state := .waiting, event := false, sleeping := false, unsat := jb.deps.length } := by
+  obtain ⟨p1, _, p3⟩ := h.pristine hu
+  refine ⟨fun hx => (by cases hx), ?_, ?_, fun hx => (by cases hx), fun hx => (by cases hx), ?_, ?_, ?_, ?_, ?_⟩
+  · intro hp
+    rcases h.fresh hu with e | e <;> rcases hp with hp | hp <;> simp only at hp <;> rw [e] at hp <;> cases hp
+  · intro hp
+    simp only at hp
+    rcases h.fresh hu with e | e <;> rw [e] at hp <;> cases hp
+  · intro _; exact (cntBad_all_wait jb.deps p3).symm
+  · intro hr; rcases hr with hr | hr <;> cases hr
+  · exact h.tokNoFail
+  · intro hf; simp only at hf; rw [p1] at hf; cases hf
+  · intro hf; simp only at hf; rw [p1] at hf; cases hf
+
+/-- the first assignment of the coroutine, no dependencies. -/
+theorem jdeep_start_nodeps {jb : Job} (h : JDeep jb) (hu : jb.state = .unscheduled) (hd : jb.deps = []) :
+    JDeep { jb with state := .ready, event := true, sleeping := false } := by
+  obtain ⟨p1, p2, _⟩ := h.pristine hu
+  refine ⟨fun hx => (by cases hx), fun _ => rfl, ?_, fun hx => (by cases hx), fun hx => (by cases hx), ?_, ?_, ?_, ?_, ?_⟩
+  · intro hp
+    simp only at hp
+    rcases h.fresh hu with e | e <;> rw [e] at hp <;> cases hp
+  · intro _; simp only [hd, cntBad]; exact p2
+  · intro _ i hi; simp [hd] at hi
+  · intro i hi; simp [hd] at hi
+  · intro hf; simp only at hf; rw [p1] at hf; cases hf
+  · intro hf; simp only at hf; rw [p1] at hf; cases hf
+
+
+
+theorem noDeps_of_unscheduled {s : St} {x : Nat} (hX : XInv s) (hu : (s.jobs x).state = .unscheduled) :
+    NoDeps s x := by
+  intro j i hi ho
+  have := hX j i x hi ho
+  cases hc : (depAt (s.jobs j) i).cur
+  · rfl
+  · have := this.1 hc; rw [hu] at this; cases this
+  · have := this.2 hc; rw [hu] at this; cases this
+
+/-- the marker test followed by `loopHead`, as a shape. -/
+theorem marker_loopHead_shape (s : St) (x : Nat) :
+    Shape s ((if (s.jobs x).marker then s.put x { (s.jobs x) with state := .done } else s).loopHead x) x
+      (loopHeadJ (if (s.jobs x).marker then { (s.jobs x) with state := .done } else s.jobs x)) [] := by
+  split
+  · exact put_loopHead_shape s x _ [] []
+  · exact loopHead_shape s x
+
+def startRec (jb : Job) : Job := { jb with state := .waiting, event := false, sleeping := false }
+def startRecDeps (jb : Job) : Job := { startRec jb with unsat := jb.deps.length }
+def startRecNoDeps (jb : Job) : Job := { startRec jb with event := true, state := .ready }
+
+theorem jdeep_startRecDeps {jb : Job} (h : JDeep jb) (hu : jb.state = .unscheduled) : JDeep (startRecDeps jb) := by
+  have := jdeep_start h hu
+  exact this
+
+theorem jdeep_startRecNoDeps {jb : Job} (h : JDeep jb) (hu : jb.state = .unscheduled) (hd : jb.deps = []) :
+    JDeep (startRecNoDeps jb) := by
+  have := jdeep_start_nodeps h hu hd
+  exact this
+
+/-- the first segment up to (excluding) the marker test. -/
+def regPhase (fl : Flags) (s : St) (x : Nat) : St :=
+  if (s.jobs x).deps.isEmpty then (s.put x (startRec (s.jobs x))).put x (startRecNoDeps (s.jobs x))
+  else St.registerDeps fl ((s.put x (startRec (s.jobs x))).put x (startRecDeps (s.jobs x))) x (s.jobs x).deps.length 0
+
+theorem startJob_eq (fl : Flags) (s : St) (x : Nat) :
+    s.startJob fl x = (if ((regPhase fl s x).jobs x).marker
+      then (regPhase fl s x).put x { ((regPhase fl s x).jobs x) with state := .done }
+      else regPhase fl s x).loopHead x := by
+  unfold St.startJob regPhase
+  simp only [startRec, startRecDeps, startRecNoDeps]
+  split <;> rfl
+
+theorem put_put_shape (s : St) (x : Nat) (a b : Job) :
+    Shape s ((s.put x a).put x b) x b [] := by
+  simpa using (Shape.put s x a [] []).trans (Shape.put (s.put x a) x b [] [])
+
+/-- what holds in the first segment once the record is initialised. -/
+def StartQ (s s' : St) (x : Nat) : Prop :=
+  InvD s' ∧ NoDeps s' x ∧ Started s' x ∧ JLocal (s'.jobs x) ∧ Frame s s' x
+
+theorem startRec_jlocal {jb : Job} (hL : JLocal jb) (hp : jb.pc = .none ∨ jb.pc = .created) (jb' : Job)
+    (h1 : jb'.pc = jb.pc) (h2 : jb'.launches = jb.launches) (h3 : jb'.marker = jb.marker) (h4 : jb'.code = jb.code)
+    (h5 : jb'.state = .waiting ∨ jb'.state = .ready) : JLocal jb' := by
+  unfold JLocal at hL ⊢
+  rw [h1, h2, h3, h4]
+  rcases hp with hp | hp <;> rcases h5 with h5 | h5 <;> simp only [hp, h5, pcEnd, pcEarly, pcRun] at hL ⊢ <;> grind
+
+theorem regPhase_Q (fl : Flags) (hg : fl.readyGuarded = true) (s : St) (x : Nat)
+    (hL : JLocal (s.jobs x)) (hS : InvS s) (h : InvD s) (hu : (s.jobs x).state = .unscheduled) :
+    StartQ s (regPhase fl s x) x := by
+  have hND := noDeps_of_unscheduled h.truth hu
+  have hJ0 := h.recs x
+  have hp := hJ0.fresh hu
+  unfold regPhase
+  split
+  · rename_i hemp
+    have hd : (s.jobs x).deps = [] := by simpa using hemp
+    refine ⟨shape_invD (put_put_shape s x _ _) h (jdeep_startRecNoDeps hJ0 hu hd) rfl (fun _ => by simp [startRecNoDeps])
+      (Or.inr hND) (by simp), ?_, ?_, ?_, ?_⟩
+    · exact put_noDeps _ x x _ _ _ (by simp [startRecNoDeps, startRecDeps, startRec]) (put_noDeps s x x _ _ _ rfl hND)
+    · simp [Started, startRecNoDeps]
+    · simp only [put_jobs, upd_same]
+      exact startRec_jlocal hL hp _ rfl rfl rfl rfl (Or.inr rfl)
+    · exact (Frame.put s x (startRec (s.jobs x)) [] [] ⟨rfl, rfl, rfl, rfl⟩).trans (Frame.put (s.put x (startRec (s.jobs x))) x _ [] [] (by rw [put_jobs, upd_same]; exact ⟨rfl, rfl, rfl, rfl⟩))
+  · have hQ1 : StartQ s ((s.put x (startRec (s.jobs x))).put x (startRecDeps (s.jobs x))) x := by
+      refine ⟨shape_invD (put_put_shape s x _ _) h (jdeep_startRecDeps hJ0 hu) rfl (fun _ => by simp [startRecDeps, startRec])
+        (Or.inr hND) (by simp), ?_, ?_, ?_, ?_⟩
+      · exact put_noDeps _ x x _ _ _ (by simp [startRecNoDeps, startRecDeps, startRec]) (put_noDeps s x x _ _ _ rfl hND)
+      · simp [Started, startRecDeps, startRec]
+      · simp only [put_jobs, upd_same]
+        exact startRec_jlocal hL hp _ rfl rfl rfl rfl (Or.inl rfl)
+      · exact (Frame.put s x (startRec (s.jobs x)) [] [] ⟨rfl, rfl, rfl, rfl⟩).trans (Frame.put (s.put x (startRec (s.jobs x))) x _ [] [] (by rw [put_jobs, upd_same]; exact ⟨rfl, rfl, rfl, rfl⟩))
+    have hlenQ : ∀ s', StartQ s s' x → (s'.jobs x).deps.length = (s.jobs x).deps.length ∧
+        ∀ i, (depAt (s'.jobs x) i).origin = (depAt (s.jobs x) i).origin :=
+      fun s' hq => sameConst_origin hq.2.2.2.2.2.2.2.2.2
+    refine registerDeps_ind (fun s' => StartQ s s' x) fl x (s.jobs x).deps.length ?_ ?_ _ 0 _ (Nat.zero_add _) hQ1
+    · intro s' d hd hq
+      obtain ⟨hD, hN, hSt, hLs, hF⟩ := hq
+      have hlen := hlenQ s' ⟨hD, hN, hSt, hLs, hF⟩
+      have hjobs := (regOne_frame s' x d).1
+      refine ⟨regOne_invD s' x d ⟨hSt, by rw [hlen.1]; exact hd⟩ hD, noDeps_same hjobs hN, ?_, ?_,
+        hF.trans (regOne_frameF s' x d x)⟩
+      · unfold Started; rw [hjobs]; exact hSt
+      · rw [hjobs]; exact hLs
+    · intro s' d hd hq
+      obtain ⟨hD, hN, hSt, hLs, hF⟩ := hq
+      have hlen := hlenQ s' ⟨hD, hN, hSt, hLs, hF⟩
+      have hd' : d < (s'.jobs x).deps.length := by rw [hlen.1]; exact hd
+      refine ⟨check_invD fl hg s' x d hLs hD ⟨hSt, hd'⟩, check_noDeps fl s' x d x hd' ?_ hN, ?_,
+        check_jl fl hg s' x d x hLs, hF.trans (check_frame fl s' x d)⟩
+      · intro ho
+        rw [hlen.2] at ho
+        exact Nat.lt_irrefl x (hS.acyclic x d x hd ho)
+      · unfold Started
+        rw [check_job]
+        exact (depChanged_mono fl hg _ _ _).1 hSt
+
+theorem startJob_invD (fl : Flags) (hg : fl.readyGuarded = true) (s : St) (x : Nat)
+    (hL : JLocal (s.jobs x)) (hS : InvS s) (h : InvD s) (hu : (s.jobs x).state = .unscheduled) :
+    InvD (s.startJob fl x) := by
+  rw [startJob_eq]
+  obtain ⟨hD, hN, hSt, _, _⟩ := regPhase_Q fl hg s x hL hS h hu
+  generalize regPhase fl s x = s2 at hD hN hSt
+  refine shape_invD (marker_loopHead_shape s2 x) hD ?_ ?_ ?_ (Or.inr hN) (by simp)
+  · refine loopHeadJ_jdeep (hD.recs x) hSt ?_ ?_ ?_ ?_ ?_ ?_ <;> split <;> (try rfl)
+    · simp
+    · exact hSt
+    · intro hr; simp at hr
+    · intro hr; exact Or.inl hr
+  · rw [(loopHeadJ_frame _).1]; split <;> rfl
+  · intro _; rw [(loopHeadJ_frame _).2.2.2.2.1]; split
+    · simp
+    · exact hSt
+
+
+
+theorem started_of_pc {jb : Job} (h : JDeep jb) (hp : jb.pc ≠ .none ∧ jb.pc ≠ .created) : jb.state ≠ .unscheduled := by
+  intro hu
+  rcases h.fresh hu with e | e
+  · exact hp.1 e
+  · exact hp.2 e
+
+theorem mono_refl (jb jb' : Job) (h : jb'.state = jb.state) :
+    (jb.state = .done → jb'.state = .done) ∧ (jb.state = .error → jb'.state = .error) := by
+  rw [h]; exact ⟨id, id⟩
+
+theorem mono_of_ready (jb jb' : Job) (h : jb.state = .ready ∨ jb.state = .running) :
+    (jb.state = .done → jb'.state = .done) ∧ (jb.state = .error → jb'.state = .error) := by
+  rcases h with h | h <;> rw [h] <;> exact ⟨fun e => (by cases e), fun e => (by cases e)⟩
+
+theorem notChk_wake (b : Bool) (x : Nat) : ∀ cb ∈ (if b = true then [Cb.wake x] else []), notChk cb := by
+  cases b <;> simp [notChk]
+
+theorem wake_invD (fl : Flags) (s : St) (x : Nat) (h : InvD s) (hpc : (s.jobs x).pc = .evtWait) :
+    InvD (s.runCb fl (.wake x)) := by
+  have hJ := h.recs x
+  have hst := started_of_pc hJ (by rw [hpc]; exact ⟨fun e => (by cases e), fun e => (by cases e)⟩)
+  simp only [St.runCb]
+  split
+  · rename_i hr
+    refine put_invD s x _ _ _ h ?_ rfl (fun _ => hst) (Or.inl (mono_refl _ _ rfl)) (by simp)
+    exact jdeep_step hJ hst rfl rfl rfl (Or.inl rfl) hst (fun e => by rw [hr] at e; cases e) (fun _ => hr)
+      (fun e => by cases e) (fun e => Or.inl e)
+  · refine shape_invD (put_loopHead_shape s x _ [] []) h ?_ ?_ ?_ (Or.inl ?_) (by simp)
+    · exact loopHeadJ_jdeep hJ hst rfl rfl rfl rfl hst (fun e => Or.inl e)
+    · rw [(loopHeadJ_frame _).1]
+    · intro _; rw [(loopHeadJ_frame _).2.2.2.2.1]; exact hst
+    · exact mono_refl _ _ (by rw [(loopHeadJ_frame _).2.2.2.2.1])
+
+theorem releaseAll_invD (s : St) (x : Nat) (ds : List Nat) (h : InvD s) : InvD (St.releaseAll s x ds) :=
+  releaseAll_ind InvD x (fun _ => True)
+    (fun s' d _ h' => relOne_invD s' x d h')
+    (fun s' h' => put_invD s' x _ _ _ h' (jdeep_held _ (h'.recs x)) rfl id (Or.inl ⟨id, id⟩) (by simp))
+    ds s (fun _ _ => trivial) h
+
+theorem acquireAll_invD (s : St) (x k d : Nat) (h : InvD s) :
+    InvD (St.acquireAll s x k d).1 ∧ ∀ e, (St.acquireAll s x k d).2 = some e → e < d + k :=
+  let r := acquireAll_ind InvD x (d + k) (fun s' d _ _ h' => acqOne_invD s' x d h') k d s rfl h
+  ⟨r.1, fun e he => (r.2 e he).1⟩
+
+theorem enterTail_invD (fl : Flags) (hg : fl.readyGuarded = true) (r : St × Option Nat) (x : Nat)
+    (hL : JLocal (r.1.jobs x)) (h : InvD r.1) (hpc : (r.1.jobs x).pc = .lockEnter)
+    (hlt : ∀ e, r.2 = some e → e < (r.1.jobs x).deps.length) : InvD (enterTail fl r x) := by
+  obtain ⟨s1, fa⟩ := r
+  simp only at hL h hpc hlt
+  have hJ := h.recs x
+  have hst := started_of_pc hJ (by rw [hpc]; exact ⟨fun e => (by cases e), fun e => (by cases e)⟩)
+  unfold enterTail
+  cases fa with
+  | some d =>
+    simp only
+    have hc := check_invD fl hg s1 x d hL h ⟨hst, hlt d rfl⟩
+    have hpc' : ((s1.check fl x d).jobs x).pc = .lockEnter := by rw [check_pc]; exact hpc
+    have hJ' := hc.recs x
+    have hst' := started_of_pc hJ' (by rw [hpc']; exact ⟨fun e => (by cases e), fun e => (by cases e)⟩)
+    have hr := hJ'.lockReady (Or.inl hpc')
+    refine put_invD _ x _ _ _ hc ?_ rfl (fun _ => hst') (Or.inl (mono_refl _ _ rfl)) (by simp)
+    exact jdeep_step hJ' hst' rfl rfl rfl (Or.inl rfl) hst' (fun e => by rw [hr] at e; cases e) (fun _ => hr)
+      (fun e => by cases e) (fun e => Or.inl e)
+  | none =>
+    simp only
+    have hr := hJ.lockReady (Or.inl hpc)
+    refine put_invD _ x _ _ _ h ?_ rfl (fun _ => by simp) (Or.inl (mono_of_ready _ _ (Or.inl hr))) (by simp)
+    exact jdeep_step hJ hst rfl rfl rfl (Or.inr (jdeep_ready_nofail hJ (Or.inl hr))) (by simp)
+      (fun e => by cases e) (fun e => by rcases e with e | e <;> cases e) (fun _ => rfl) (fun _ => Or.inl (Or.inl hr))
+
+theorem abortTail_invD (fl : Flags) (s1 : St) (x : Nat) (h : InvD s1) (hpc : (s1.jobs x).pc = .lockExitAbort) :
+    InvD (abortTail fl s1 x) := by
+  have hJ := h.recs x
+  have hst := started_of_pc hJ (by rw [hpc]; exact ⟨fun e => (by cases e), fun e => (by cases e)⟩)
+  have hr := hJ.lockReady (Or.inr hpc)
+  unfold abortTail
+  simp only
+  have e := eventSet_frame { (s1.jobs x) with state := JS.ready }
+  refine shape_invD (put_loopHead_shape s1 x _ _ []) h ?_ ?_ ?_ (Or.inl (mono_of_ready _ _ (Or.inl hr))) ?_
+  · split
+    · refine loopHeadJ_jdeep hJ hst e.2.2.2.2.2.2.2.2.1 e.2.2.2.2.2.2.2.2.2.1 e.2.2.2.2.2.2.1 e.2.2.1 ?_
+        (fun _ => Or.inl (Or.inl hr))
+      rw [e.2.1]; simp
+    · exact loopHeadJ_jdeep hJ hst rfl rfl rfl rfl (by simp) (fun e => by rcases e with e | e <;> cases e)
+  · rw [(loopHeadJ_frame _).1]
+    split
+    · exact e.2.2.2.2.2.2.2.2.1
+    · rfl
+  · intro _; rw [(loopHeadJ_frame _).2.2.2.2.1]
+    split
+    · rw [e.2.1]; simp
+    · simp
+  · exact notChk_wake _ x
+
+theorem codeTail_invD (s1 : St) (x : Nat) (h : InvD s1) (hpc : (s1.jobs x).pc = .codeWait) :
+    InvD (codeTail s1 x) := by
+  have hJ := h.recs x
+  have hst := started_of_pc hJ (by rw [hpc]; exact ⟨fun e => (by cases e), fun e => (by cases e)⟩)
+  have hr := hJ.runRunning (by rw [hpc]; rfl)
+  unfold codeTail
+  have hs := (Shape.put s1 x { (s1.jobs x) with state := if (s1.jobs x).code = 0 then JS.done else JS.error } [] []).trans
+    (finish_shape _ x)
+  simp only [put_jobs, upd_same, List.append_nil] at hs
+  refine shape_invD hs h ?_ rfl (fun _ => by simp only; split <;> simp)
+    (Or.inl (mono_of_ready _ _ (Or.inr hr))) (by simp)
+  refine jdeep_step hJ hst rfl rfl rfl (Or.inl rfl) (by simp only; split <;> simp) (fun _ => rfl)
+    (fun e => by rcases e with e | e <;> cases e) (fun e => by cases e) ?_
+  intro e
+  simp only at e
+  split at e <;> rcases e with e | e <;> cases e
+
+theorem doneStep_invD (s : St) (x : Nat) (h : InvD s) (hpc : (s.jobs x).pc = .doneHandler) :
+    InvD (doneStep s x) := by
+  have hJ := h.recs x
+  have hst := started_of_pc hJ (by rw [hpc]; exact ⟨fun e => (by cases e), fun e => (by cases e)⟩)
+  unfold doneStep
+  refine put_invD _ x _ _ _ ?_ ?_ rfl (fun _ => hst) (Or.inl (mono_refl _ _ rfl)) (by simp)
+  · refine invD_grow (s := s) ((if s.waiter = WS.sleeping then [Cb.waiterRun] else []) ++
+      (s.jobDeps x).map (fun (p : Nat × Nat) => Cb.check p.1 p.2)) rfl rfl rfl rfl ?_ h
+    intro j d hm
+    simp only [List.mem_append, List.mem_map] at hm
+    rcases hm with (hm | ⟨p, hp, e⟩) | (hm | ⟨p, _, e⟩)
+    · split at hm <;> simp at hm
+    · simp only [Cb.check.injEq] at e
+      have := (h.wf.jobDepsOK x p hp).1
+      rw [e.1, e.2] at this; exact this
+    · split at hm <;> simp at hm
+    · cases e
+  · exact jdeep_step hJ hst rfl rfl rfl (Or.inl rfl) hst (fun _ => rfl) (fun e => by rcases e with e | e <;> cases e)
+      (fun e => by cases e) (fun e => Or.inl e)
+
+theorem resume_invD (fl : Flags) (hg : fl.readyGuarded = true) (s : St) (x : Nat) (hL : JLocal (s.jobs x))
+    (h : InvD s) : InvD (s.resume fl x) := by
+  cases hp : (s.jobs x).pc with
+  | lockEnter =>
+    rw [resume_lockEnter fl s x hp]
+    obtain ⟨hl, e⟩ := acquireAll_job s x (s.jobs x).deps.length 0
+    have hA := acquireAll_invD s x (s.jobs x).deps.length 0 h
+    refine enterTail_invD fl hg _ x (by rw [e]; exact hL) hA.1 (by rw [e]; exact hp) ?_
+    intro d hd
+    rw [e]
+    have := hA.2 d hd
+    simpa using this
+  | lockExitAbort =>
+    rw [resume_lockExitAbort fl s x hp]
+    exact abortTail_invD fl _ x (releaseAll_invD s x _ h) (by rw [releaseAll_job]; exact hp)
+  | lockExitRun =>
+    rw [resume_lockExitRun fl s x hp]
+    have hJ := h.recs x
+    have hst := started_of_pc hJ (by rw [hp]; exact ⟨fun e => (by cases e), fun e => (by cases e)⟩)
+    have hr := hJ.runRunning (by rw [hp]; rfl)
+    refine put_invD s x _ _ _ h ?_ rfl (fun _ => hst) (Or.inl (mono_refl _ _ rfl)) (by simp)
+    exact jdeep_step hJ hst rfl rfl rfl (Or.inl rfl) hst (fun e => by rw [hr] at e; cases e)
+      (fun e => by rcases e with e | e <;> cases e) (fun _ => hr) (fun e => Or.inl e)
+  | codeWait =>
+    rw [resume_codeWait fl s x hp]
+    exact codeTail_invD _ x (releaseAll_invD s x _ h) (by rw [releaseAll_job]; exact hp)
+  | doneHandler => rw [resume_doneHandler fl s x hp]; exact doneStep_invD s x h hp
+  | _ => rw [resume_other fl s x (by simp [hp, pcKind])]; exact h
+
+
+
+/-- before its first segment a job record still shows UNSCHEDULED. -/
+def InvF (s : St) : Prop := ∀ j, ((s.jobs j).pc = .none ∨ (s.jobs j).pc = .created) → (s.jobs j).state = .unscheduled
+
+theorem kind23_not_fresh {pc : PC} (h : pcKind pc = 3 ∨ pcKind pc = 2) : ¬ (pc = .none ∨ pc = .created) := by
+  intro hp; rcases hp with hp | hp <;> rw [hp] at h <;> simp [pcKind] at h
+
+theorem startJob_not_fresh (fl : Flags) (s : St) (x : Nat) :
+    ¬ (((s.startJob fl x).jobs x).pc = .none ∨ ((s.startJob fl x).jobs x).pc = .created) := by
+  apply kind23_not_fresh
+  unfold St.startJob
+  simp only
+  rw [loopHead_job]
+  exact loopHeadJ_kind _
+
+theorem wake_not_fresh (fl : Flags) (s : St) (x : Nat) :
+    ¬ (((s.runCb fl (.wake x)).jobs x).pc = .none ∨ ((s.runCb fl (.wake x)).jobs x).pc = .created) := by
+  simp only [St.runCb]
+  split
+  · simp
+  · apply kind23_not_fresh
+    rw [loopHead_job]
+    exact loopHeadJ_kind _
+
+theorem resume_not_fresh (fl : Flags) (s : St) (x : Nat) (hk : pcKind (s.jobs x).pc = 3) :
+    ¬ (((s.resume fl x).jobs x).pc = .none ∨ ((s.resume fl x).jobs x).pc = .created) := by
+  cases hp : (s.jobs x).pc with
+  | lockEnter =>
+    rw [resume_lockEnter fl s x hp]
+    generalize St.acquireAll s x (s.jobs x).deps.length 0 = r
+    obtain ⟨s1, fa⟩ := r
+    unfold enterTail
+    cases fa <;> simp
+  | lockExitAbort =>
+    rw [resume_lockExitAbort fl s x hp]
+    unfold abortTail
+    simp only
+    rw [loopHead_job]
+    exact kind23_not_fresh (loopHeadJ_kind _)
+  | lockExitRun => rw [resume_lockExitRun fl s x hp]; simp
+  | codeWait => rw [resume_codeWait fl s x hp]; unfold codeTail; rw [finish_job]; simp
+  | doneHandler => rw [resume_doneHandler fl s x hp]; simp [doneStep]
+  | _ => simp [hp, pcKind] at hk
+
+theorem pop_invD {s : St} {cb : Cb} {rest : List Cb} (h : InvD s) (hr : s.ready = cb :: rest) :
+    InvD ({ s with ready := rest } : St) :=
+  ⟨h.recs, h.truth, ⟨fun j d hm => h.wf.cbOK j d (by
+      rw [hr]; rcases hm with hm | hm
+      · exact Or.inl (List.mem_cons_of_mem _ hm)
+      · exact Or.inr (List.mem_cons_of_mem _ hm)), h.wf.jobDepsOK, h.wf.tokDepsOK⟩⟩
+
+/-- third layer plus `InvF`, preserved by every callback. -/
+theorem runCb_invD (fl : Flags) (hg : fl.readyGuarded = true) (s : St) (cb : Cb) (rest : List Cb)
+    (hA : InvA s) (hS : InvS s) (hr : s.ready = cb :: rest) (hF : InvF s) (h : InvD s) :
+    InvD (({ s with ready := rest } : St).runCb fl cb) ∧ InvF (({ s with ready := rest } : St).runCb fl cb) := by
+  have h0 := pop_invD h hr
+  have hFr := runCb_frame fl ({ s with ready := rest } : St) cb
+  have hS0 : InvS ({ s with ready := rest } : St) :=
+    ⟨hS.blankDeps, hS.acyclic, hS.tokOK, hS.effLe, hS.regLt, hS.resLt,
+     fun j hj => hS.regCb j (by rw [hr]; exact List.mem_cons_of_mem _ hj)⟩
+  -- `InvF` for every job but the target
+  have hFother : ∀ i, i ≠ target cb →
+      (((({ s with ready := rest } : St).runCb fl cb).jobs i).pc = .none ∨
+       ((({ s with ready := rest } : St).runCb fl cb).jobs i).pc = .created) →
+      ((({ s with ready := rest } : St).runCb fl cb).jobs i).state = .unscheduled := by
+    intro i hi; rw [hFr.2.2.2.2.1 i hi]; exact hF i
+  have hFof : (¬ ((((({ s with ready := rest } : St).runCb fl cb).jobs (target cb)).pc = .none ∨
+       ((({ s with ready := rest } : St).runCb fl cb).jobs (target cb)).pc = .created))) →
+      InvF (({ s with ready := rest } : St).runCb fl cb) := by
+    intro hn i hp
+    by_cases hi : i = target cb
+    · subst hi; exact absurd hp hn
+    · exact hFother i hi hp
+  have hFsame : (({ s with ready := rest } : St).runCb fl cb).jobs = s.jobs → InvF (({ s with ready := rest } : St).runCb fl cb) := by
+    intro e; unfold InvF; rw [e]; exact hF
+  have hchk : ∀ j d, DepOK s j d →
+      InvD (St.check fl ({ s with ready := rest } : St) j d) ∧ InvF (St.check fl ({ s with ready := rest } : St) j d) := by
+    intro j d hok
+    refine ⟨check_invD fl hg _ j d (hA.loc j) h0 hok, ?_⟩
+    intro i hp
+    rw [check_pc] at hp
+    by_cases hi : i = j
+    · subst hi
+      exact absurd (hF i hp) hok.1
+    · rw [check_job_ne _ _ _ _ _ hi]; exact hF i hp
+  cases cb with
+  | register j =>
+    have f := register_jobs fl ({ s with ready := rest } : St) j
+    have e1 : (St.register fl ({ s with ready := rest } : St) j).jobDeps = s.jobDeps := by
+      unfold St.register; simp only; split
+      · split
+        · split <;> rfl
+        · rfl
+      · rfl
+    have e2 : (St.register fl ({ s with ready := rest } : St) j).tokDeps = s.tokDeps := by
+      unfold St.register; simp only; split
+      · split
+        · split <;> rfl
+        · rfl
+      · rfl
+    exact ⟨invD_same (s := ({ s with ready := rest } : St)) f.1 f.2.1 e1 e2 h0, hFsame f.1⟩
+  | start j =>
+    have hpc := head_start_pc hA.ctl hr
+    exact ⟨startJob_invD fl hg _ j (hA.loc j) hS0 h0 (hF j (Or.inr hpc)), hFof (startJob_not_fresh fl _ j)⟩
+  | wake j =>
+    exact ⟨wake_invD fl _ j h0 (head_wake_pc (s := s) hA.ctl hr), hFof (wake_not_fresh fl _ j)⟩
+  | resume j =>
+    exact ⟨resume_invD fl hg _ j (hA.loc j) h0, hFof (resume_not_fresh fl _ j (head_resume_kind (s := s) hA.ctl hr))⟩
+  | check j d => exact hchk j d (h.wf.cbOK j d (Or.inl (by rw [hr]; exact List.mem_cons_self ..)))
+  | notifyCheck j d =>
+    rcases notifyCheck_cases fl ({ s with ready := rest } : St) j d with e | e <;> rw [e]
+    · exact hchk j d (h.wf.cbOK j d (Or.inr (by rw [hr]; exact List.mem_cons_self ..)))
+    · exact ⟨h0, hF⟩
+  | waiterRun =>
+    have f := waiterRun_jobs ({ s with ready := rest } : St)
+    have e1 : (St.waiterRun ({ s with ready := rest } : St)).jobDeps = s.jobDeps := by
+      unfold St.waiterRun; split <;> rfl
+    have e2 : (St.waiterRun ({ s with ready := rest } : St)).tokDeps = s.tokDeps := by
+      unfold St.waiterRun; split <;> rfl
+    exact ⟨invD_same (s := ({ s with ready := rest } : St)) f.1 f.2.1 e1 e2 h0, hFsame f.1⟩
+
+
+
+/-- everything proved so far that is preserved step by step (the counter layer `InvB` is event-level). -/
+structure InvC (s : St) : Prop where
+  a : InvA s
+  st : InvS s
+  f : InvF s
+  d : InvD s
+
+theorem step_invC (fl : Flags) (hg : fl.readyGuarded = true) (s : St) (h : InvC s) : InvC (s.step fl) := by
+  refine ⟨step_invA fl hg s h.a, step_invS fl s h.st, ?_, ?_⟩
+  · unfold St.step; split
+    · exact h.f
+    · rename_i cb rest hr; exact (runCb_invD fl hg s cb rest h.a h.st hr h.f h.d).2
+  · unfold St.step; split
+    · exact h.d
+    · rename_i cb rest hr; exact (runCb_invD fl hg s cb rest h.a h.st hr h.f h.d).1
+
+theorem depAt_fresh (deps : List Dep) (i : Nat) (jb : Job) (hd : jb.deps = deps)
+    (hall : ∀ dp ∈ deps, dp.cur = .wait) (hi : i < deps.length) : (depAt jb i).cur = .wait := by
+  unfold depAt
+  rw [hd, List.getD_eq_getElem?_getD, List.getElem?_eq_getElem hi]
+  exact hall _ (List.getElem_mem hi)
+
+theorem submitPre_invC (s : St) (ident : Nat) (deps : List Origin) (code : Nat) (marker : Bool)
+    (hok : EvOK s (.submit ident deps code marker)) (h : InvC s) : InvC (submitPre s ident deps code marker) := by
+  have hpcn := h.a.blank s.n (Nat.le_refl _)
+  have hun : (s.jobs s.n).state = .unscheduled := h.f s.n (Or.inl hpcn)
+  have hND := noDeps_of_unscheduled h.d.truth hun
+  have hne := fun i (hi : i ≠ s.n) => submitPre_jobs_ne s ident deps code marker i hi
+  have hnew : (submitPre s ident deps code marker).jobs s.n = newJob s ident deps code marker := by
+    simp only [submitPre, upd_same]
+  have hcur : ∀ i, i < ((submitPre s ident deps code marker).jobs s.n).deps.length →
+      (depAt ((submitPre s ident deps code marker).jobs s.n) i).cur = .wait := by
+    intro i hi
+    refine depAt_fresh _ i _ rfl ?_ hi
+    intro dp hdp
+    rw [hnew] at hdp
+    simp only [newJob, List.mem_map] at hdp
+    obtain ⟨o, _, rfl⟩ := hdp
+    split <;> rfl
+  have hstarted : ∀ j, Started s j → j ≠ s.n := fun j hj e => hj (e ▸ hun)
+  have hdepok : ∀ j d, DepOK s j d → DepOK (submitPre s ident deps code marker) j d := by
+    intro j d hjd
+    have := hstarted j hjd.1
+    unfold DepOK Started; rw [hne j this]; exact hjd
+  refine ⟨submitPre_invA s ident deps code marker h.a, submitPre_invS s ident deps code marker hok h.st, ?_, ?_, ?_, ?_⟩
+  · intro j hp
+    by_cases hj : j = s.n
+    · subst hj; rw [hnew]; rfl
+    · rw [hne j hj] at hp ⊢; exact h.f j hp
+  · intro j
+    by_cases hj : j = s.n
+    · subst hj
+      have e1 : ((submitPre s ident deps code marker).jobs s.n).state = .unscheduled := by rw [hnew]; rfl
+      have e2 : ((submitPre s ident deps code marker).jobs s.n).pc = .none := by rw [hnew]; rfl
+      have e3 : ((submitPre s ident deps code marker).jobs s.n).failedDep = false := by rw [hnew]; rfl
+      have e4 : ((submitPre s ident deps code marker).jobs s.n).unsat = 0 := by rw [hnew]; rfl
+      refine ⟨?_, ?_, ?_, ?_, ?_, ?_, ?_, ?_, ?_, ?_⟩
+      · rw [e1]; intro e; cases e
+      · rw [e2]; intro e; rcases e with e | e <;> cases e
+      · rw [e2]; intro e; cases e
+      · intro _; exact Or.inl e2
+      · intro _; exact ⟨e3, e4, hcur⟩
+      · intro e; exact absurd e1 e
+      · rw [e1]; intro e; rcases e with e | e <;> cases e
+      · intro i hi _; rw [hcur i hi]; simp
+      · rw [e3]; intro e; cases e
+      · rw [e3]; intro e; cases e
+    · rw [hne j hj]; exact h.d.recs j
+  · intro j i o hi ho
+    by_cases hj : j = s.n
+    · subst hj
+      rw [hcur i hi]
+      exact ⟨fun e => (by cases e), fun e => (by cases e)⟩
+    · rw [hne j hj] at hi ho ⊢
+      by_cases hon : o = s.n
+      · subst hon
+        rw [hND j i hi ho]
+        exact ⟨fun e => (by cases e), fun e => (by cases e)⟩
+      · rw [hne o hon]; exact h.d.truth j i o hi ho
+  · refine ⟨?_, ?_, ?_⟩
+    · intro j d hm
+      apply hdepok
+      apply h.d.wf.cbOK
+      simp only [submitPre, newJob, List.mem_append, List.mem_singleton] at hm
+      rcases hm with (hm | hm) | (hm | hm)
+      · exact Or.inl hm
+      · cases hm
+      · exact Or.inr hm
+      · cases hm
+    · intro o p hp
+      have := h.d.wf.jobDepsOK o p hp
+      have hpn := hstarted p.1 this.1.1
+      exact ⟨hdepok _ _ this.1, by rw [hne _ hpn]; exact this.2⟩
+    · intro t p hp
+      have := h.d.wf.tokDepsOK t p hp
+      have hpn := hstarted p.1 this.1.1
+      exact ⟨hdepok _ _ this.1, by rw [hne _ hpn]; exact this.2⟩
+
+theorem submitPost_invC (s2 : St) (j : Nat) (h : InvC s2) (hpc : (s2.jobs j).pc = .none) (hn : s2.n = j + 1) :
+    InvC (submitPost s2 j) := by
+  refine ⟨submitPost_invA s2 j h.a hpc (by omega), submitPost_invS s2 j hn h.st, ?_, ?_⟩
+  · have hun := h.f j (Or.inl hpc)
+    unfold submitPost
+    split
+    · exact h.f
+    · intro i hp
+      by_cases hi : i = j
+      · subst hi; simp only [put_jobs, upd_same]; exact hun
+      · simp only [put_jobs, upd_ne _ _ hi] at hp ⊢; exact h.f i hp
+  · have hun := h.f j (Or.inl hpc)
+    have hJ := h.d.recs j
+    unfold submitPost
+    split
+    · exact invD_same (s := s2) rfl rfl rfl rfl h.d
+    · refine put_invD _ j _ _ _ (invD_same (s := s2) rfl rfl rfl rfl h.d) ?_ rfl (fun hs => absurd hun hs)
+        (Or.inl (mono_refl _ _ rfl)) (by simp [notChk])
+      refine ⟨?_, ?_, ?_, fun _ => Or.inr rfl, hJ.pristine, hJ.counter, hJ.readyDeps, hJ.tokNoFail, hJ.failedWit,
+        hJ.failedNoLaunch⟩
+      · intro e; simp only at e; rw [hun] at e; cases e
+      · intro e; rcases e with e | e <;> cases e
+      · intro e; cases e
+
+theorem apply_invC (fl : Flags) (hg : fl.readyGuarded = true) (s : St) (ev : Ev) (hok : EvOK s ev) (h : InvC s) :
+    InvC (s.apply fl ev) := by
+  cases ev with
+  | step => exact step_invC fl hg s h
+  | wait =>
+    refine ⟨apply_invA fl hg s .wait h.a, apply_invS fl s .wait hok h.st, h.f, ?_⟩
+    exact invD_grow (s := s) [Cb.waiterRun] rfl rfl rfl rfl (by intro j d hm; simp at hm) h.d
+  | deliver k =>
+    refine ⟨apply_invA fl hg s (.deliver k) h.a, apply_invS fl s (.deliver k) hok h.st, ?_, ?_⟩
+    · simp only [St.apply]; split
+      · exact h.f
+      · exact h.f
+    · simp only [St.apply]; split
+      · rename_i tk j _
+        exact invD_grow (s := s) [Cb.resume j] rfl rfl rfl rfl (by intro j d hm; simp at hm) h.d
+      · exact h.d
+  | submit ident deps code marker =>
+    rw [apply_submit]
+    have h0 := submitPre_invC s ident deps code marker hok h
+    have h1 := steps_ind (fun s' => InvC s' ∧ (s'.jobs s.n).pc = .none) fl
+      (fun s' hs' => ⟨step_invC fl hg s' hs'.1, by
+        rw [step_kind0 fl s' hs'.1.a.ctl s.n (by rw [hs'.2]; rfl)]; exact hs'.2⟩)
+      (s.ready.length + 1) _ ⟨h0, by simp [submitPre, newJob]⟩
+    exact submitPost_invC _ s.n h1.1 h1.2 (by rw [steps_n]; simp [submitPre, newJob])
+
+theorem init_invC (totals : List Nat) : InvC (St.init totals) := by
+  refine ⟨init_invA totals, init_invS totals, fun j _ => rfl, ?_, ?_, ?_⟩
+  · intro j
+    refine ⟨?_, ?_, ?_, fun _ => Or.inl rfl, fun _ => ⟨rfl, rfl, fun i hi => by simp [St.init] at hi⟩, ?_, ?_, ?_, ?_, ?_⟩
+    · intro e; cases e
+    · intro e; rcases e with e | e <;> cases e
+    · intro e; cases e
+    · intro e; exact absurd rfl e
+    · intro e; rcases e with e | e <;> cases e
+    · intro i hi; simp [St.init] at hi
+    · intro e; cases e
+    · intro e; cases e
+  · intro j i o hi; simp [St.init] at hi
+  · exact ⟨fun j d hm => by simp [St.init] at hm, fun o p hp => by simp [St.init] at hp,
+      fun t p hp => by simp [St.init] at hp⟩
+
+theorem reachable_invC {fl : Flags} (hg : fl.readyGuarded = true) {totals : List Nat} {s : St}
+    (h : Reachable fl totals s) : InvC s := by
+  induction h with
+  | init => exact init_invC totals
+  | next _ hok ih => exact apply_invC fl hg _ _ hok ih
 
 
 end XpmVerif.SchedFinal
